@@ -8863,3 +8863,3584 @@ class FnColl:
         finally:
             self.argcache = saved
         return "(fun %s : %s =>\n%s)" % (x, self.cfg["coq_type"](param_ty), cmd_indent(term))
+# =================================================================================================
+# Sub-state wave, builder B26 (first client: lib/gen/flowfor_gen.py — forin/mod.rs of the SDK's flow control: functions that
+# work on `state: &mut HashMap<String, StateValue>` through string-keyed SUB-STATE maps into which typed records are
+# serialised).  Purely additive: nothing above this line is changed.  The grammar is PColl's (parse_fn_coll / parse_run_coll);
+# the executor FnSub is a NEW class.
+#
+#   SubV    a Rust value: its type, its Coq term (None when it has no Coq counterpart) and what is statically KNOWN about it: a
+#           literal, a known constructor (Some / None / Ok / Err / StateValue::X / CommandResult::X ..) with known arguments, a
+#           struct literal with known fields, a HashMap local with known content (closed: built from HashMap::new(); open:
+#           unknown other keys), a map that is exactly the serialisation of a record (cfg["abstract"]), a PLACE inside the
+#           abstract state.
+#   FnSub   symbolic executor in continuation-passing style with an ABSTRACT STATE threaded through the continuations:
+#     * the abstract state is a list of named CELLS (cfg["cells"]: Coq projections of one state record, cfg["state_mk"] builds
+#       it; cfg["extra"]: cells outside the record, e.g. the variable map of a command context); every continuation receives
+#       the cells as they are at that point, so every branch carries its own state and an early `return` sees all writes made
+#       before it; a function's result is `cfg["ret"](value term, cells)`;
+#     * what a free function / method / constructor MEANS is the configuration's: cfg["calls"] (handlers that get the argument
+#       ASTs, the environment, the cells and the continuation: they may emit a `match`, update cells, bind locals behind
+#       `&mut`), cfg["fns"] (the other translated functions: a call becomes `gbind (gen_f args state) (fun '(r, gs') => ..)`),
+#       cfg["inline"] (helpers executed at the call site — used by the client to RUN serialise / deserialise pairs on symbolic
+#       records and check that they are mutually inverse), cfg["place_methods"], cfg["struct_methods"], cfg["ctors"];
+#     * control flow: `if` / `else if`, `match` (a scrutinee whose constructor is statically known is decided here, nested and
+#       `|` patterns included; an unknown Option / Result / bool becomes a Coq `match` / `if` with the continuation copied into
+#       the arms), `if let`, early `return`, blocks as values, `||` / `&&` whose right operand can unwind become branches;
+#     * every operation that can unwind is an explicit arm ending in cfg["panic"]: `arguments[<literal>]` (bound once per path),
+#       `list[i]`;
+#     * `loop { .. }` as the last statement of a function whose only exits are `return`s: the body becomes a Coq function of
+#       the state record to `GVal (LNext | LRet r, state)`, driven by `gloop <fuel>` with cfg["loop_fuel"] (out of fuel is a
+#       distinct outcome); locals declared before the loop are captured (they must not be assigned inside);
+#     * in CHECK mode (cfg["check"]) nothing may depend on an unknown value: any emitted branch is an error.
+#   Everything not understood raises Rs2vError.
+class SubV:
+    __slots__ = ("ty", "term", "known")
+
+    def __init__(self, ty, term=None, known=None):
+        self.ty, self.term, self.known = ty, term, known
+
+    def __repr__(self):
+        return "SubV(%r, %r, %r)" % (self.ty, self.term, self.known)
+
+
+def sub_strip_ref(e):
+    while e[0] in ("ref", "refmut"):
+        e = e[1]
+    return e
+
+
+class FnSub:
+    CLONES = ("clone", "to_string", "to_owned", "as_str", "to_str", "as_ref", "borrow", "into")
+
+    def __init__(self, cfg):
+        self.cfg = cfg
+        self.n = 0
+        self.check = bool(cfg.get("check"))
+        self.leaves = []
+
+    # ---- small helpers --------------------------------------------------------------------------------------------
+    def fresh(self, base):
+        self.n += 1
+        b = re.sub(r"\W", "_", base).strip("_") or "x"
+        return "%s_%d" % (b, self.n)
+
+    def unit(self):
+        return SubV("unit", "tt")
+
+    def boolv(self, b):
+        return SubV("bool", known=("bool", bool(b)))
+
+    def branching(self, what):
+        if self.check:
+            raise Rs2vError("check mode: the outcome depends on a value that is not statically known (%s)" % what)
+
+    def term(self, v):
+        k = v.known
+        if k is not None:
+            if k[0] == "lit":
+                return coq_str_lit(k[1])
+            if k[0] == "num":
+                return "%d%%nat" % k[1]
+            if k[0] == "bool":
+                return "true" if k[1] else "false"
+            if k[0] == "ctor":
+                name, args = k[1], k[2]
+                if name == "Some":
+                    return "(Some %s)" % self.term(args[0])
+                if name == "None":
+                    return "None"
+                if name == "Ok":          # Result<T, E> is kept as `option T`: the error payload has no Coq counterpart
+                    return "(Some %s)" % self.term(args[0])
+                if name == "Err":
+                    return "None"
+                h = self.cfg.get("ctor_term")
+                if h:
+                    return h(self, v)
+                raise Rs2vError("no Coq spelling for the constructor %s" % name)
+            if k[0] == "struct":
+                spec = self.cfg["structs"].get(v.ty[1])
+                if not spec or "mk" not in spec:
+                    raise Rs2vError("no Coq record for struct %s" % (v.ty[1],))
+                return spec["mk"] % tuple(self.term(k[1][f]) for f, _t in spec["fields"])
+        if v.term is None:
+            raise Rs2vError("a value of type %s that has no Coq counterpart is used" % (v.ty,))
+        return v.term
+
+    # ---- abstract state -------------------------------------------------------------------------------------------
+    def state0(self, base):
+        return {"base": base, "cells": {c: None for c, _p in self.cfg["cells"]}, "extra": dict(self.cfg.get("extra", {}))}
+
+    def cell(self, st, c):
+        if c in st["extra"]:
+            return st["extra"][c]
+        t = st["cells"][c]
+        if t is not None:
+            return t
+        return "(%s %s)" % (dict(self.cfg["cells"])[c], st["base"])
+
+    def set_cell(self, st, c, term):
+        st2 = {"base": st["base"], "cells": dict(st["cells"]), "extra": dict(st["extra"])}
+        if c in st2["extra"]:
+            st2["extra"][c] = term
+        else:
+            st2["cells"][c] = term
+        return st2
+
+    def state_term(self, st):
+        if all(t is None for t in st["cells"].values()):
+            return st["base"]
+        return self.cfg["state_mk"] % tuple(self.cell(st, c) for c, _p in self.cfg["cells"])
+
+    # ---- environment ----------------------------------------------------------------------------------------------
+    @staticmethod
+    def leave(outer, now, restore=()):
+        out = {}
+        for n in outer:
+            if n in restore:
+                out[n] = outer[n]
+            elif n in now:
+                out[n] = now[n]
+        for n in now:
+            if n.startswith("%"):
+                out[n] = now[n]
+        return out
+
+    def path(self, names, env):
+        if len(names) == 1:
+            n = names[0]
+            if n in env:
+                return env[n]
+            if n == "None":
+                return SubV(("opt", None), known=("ctor", "None", []))
+            if n in self.cfg.get("statics", {}):
+                return SubV("str", known=("lit", self.cfg["statics"][n]))
+        j = "::".join(names)
+        if j in self.cfg.get("statics", {}):
+            return SubV("str", known=("lit", self.cfg["statics"][j]))
+        if names[-1] in self.cfg.get("qualified_statics", {}) and len(names) > 1:
+            return SubV("str", known=("lit", self.cfg["qualified_statics"][names[-1]]))
+        raise Rs2vError("unknown name %s" % j)
+
+    def field(self, v, f):
+        if v.ty in ("ctx", "self"):
+            tab = self.cfg.get(v.ty + "_fields", {})
+            if f not in tab:
+                raise Rs2vError("field %s of the %s is not available to the model" % (f, "invocation context" if v.ty == "ctx" else "command"))
+            return tab[f]
+        if isinstance(v.ty, tuple) and v.ty[0] == "struct":
+            if v.known is not None and v.known[0] == "struct":
+                if f not in v.known[1]:
+                    raise Rs2vError("struct %s has no field %s" % (v.ty[1], f))
+                return v.known[1][f]
+            spec = self.cfg["structs"].get(v.ty[1])
+            if not spec or f not in dict(spec["fields"]):
+                raise Rs2vError("struct %s has no field %s" % (v.ty[1], f))
+            return SubV(dict(spec["fields"])[f], spec["proj"][f] % self.term(v))
+        raise Rs2vError("field %s of a %s" % (f, v.ty))
+
+    # ---- expressions ----------------------------------------------------------------------------------------------
+    def ex_list(self, es, env, st, k, ctx):
+        def go(i, acc, env1, st1):
+            if i == len(es):
+                return k(acc, env1, st1)
+            return self.ex(es[i], env1, st1, lambda v, e2, s2: go(i + 1, acc + [v], e2, s2), ctx)
+        return go(0, [], env, st)
+
+    def ex(self, e, env, st, k, ctx):
+        t = e[0]
+        if t == "str":
+            return k(SubV("str", known=("lit", e[1])), env, st)
+        if t == "num":
+            return k(SubV("nat", known=("num", e[1])), env, st)
+        if t == "bool":
+            return k(self.boolv(e[1]), env, st)
+        if t == "tuple":
+            if e[1]:
+                raise Rs2vError("tuple value")
+            return k(self.unit(), env, st)
+        if t in ("ref", "refmut"):
+            return self.ex(e[1], env, st, k, ctx)
+        if t == "path":
+            return k(self.path(e[1], env), env, st)
+        if t == "field":
+            return self.ex(e[1], env, st, lambda v, e2, s2: k(self.field(v, e[2]), e2, s2), ctx)
+        if t == "index":
+            return self.ex_index(e, env, st, k, ctx)
+        if t == "mcall":
+            return self.ex_mcall(e, env, st, k, ctx)
+        if t == "call":
+            return self.ex_call(e, env, st, k, ctx)
+        if t == "struct":
+            name = e[1][-1]
+            spec = self.cfg["structs"].get(name)
+            if spec is None:
+                raise Rs2vError("struct literal %s" % name)
+            want = [f for f, _t in spec["fields"]]
+            got = [f for f, _x in e[2]]
+            if sorted(want) != sorted(got):
+                raise Rs2vError("struct literal %s with fields %s (declared: %s)" % (name, got, want))
+
+            def kf(vals, e2, s2):
+                fields = {}
+                for (f, _x), v in zip(e[2], vals):
+                    wt = dict(spec["fields"])[f]
+                    if not self.ty_ok(v.ty, wt):
+                        raise Rs2vError("field %s of %s: a %s where a %s is declared" % (f, name, v.ty, wt))
+                    fields[f] = v
+                return k(SubV(("struct", name), known=("struct", fields)), e2, s2)
+            return self.ex_list([x for _f, x in e[2]], env, st, kf, ctx)
+        if t == "if":
+            return self.ex_if(e[1], e[2], e[3], env, st, k, ctx)
+        if t == "iflet":
+            arms = [(e[1], e[3]), (("wild",), e[4] if e[4] is not None else ("tuple", []))]
+            return self.ex(e[2], env, st, lambda v, e2, s2: self.match_value(v, arms, e2, s2, k, ctx), ctx)
+        if t == "match":
+            return self.ex(e[1], env, st, lambda v, e2, s2: self.match_value(v, e[2], e2, s2, k, ctx), ctx)
+        if t == "block":
+            return self.block(e, env, st, k, ctx)
+        if t == "bin":
+            if e[1] in ("||", "&&"):
+                return self.ex_logic(e[1], e[2], e[3], env, st, k, ctx)
+            return self.ex_list([e[2], e[3]], env, st, lambda vs, e2, s2: k(self.binop(e[1], vs[0], vs[1]), e2, s2), ctx)
+        if t == "not":
+            def kn(v, e2, s2):
+                if v.ty != "bool":
+                    raise Rs2vError("`!` on a %s" % (v.ty,))
+                if v.known is not None:
+                    return k(self.boolv(not v.known[1]), e2, s2)
+                return k(SubV("bool", "(negb %s)" % self.term(v)), e2, s2)
+            return self.ex(e[1], env, st, kn, ctx)
+        raise Rs2vError("expression %s" % t)
+
+    def ty_ok(self, have, want):
+        if have == want:
+            return True
+        if isinstance(have, tuple) and isinstance(want, tuple) and have[0] == want[0] == "opt":
+            return have[1] is None or want[1] is None or self.ty_ok(have[1], want[1])
+        if isinstance(have, tuple) and isinstance(want, tuple) and have[0] == want[0] == "res":
+            return (have[1] is None or self.ty_ok(have[1], want[1])) and True
+        return False
+
+    def binop(self, op, a, b):
+        if a.ty != b.ty:
+            raise Rs2vError("`%s` between a %s and a %s" % (op, a.ty, b.ty))
+        ka, kb = a.known, b.known
+        if op in ("==", "!="):
+            if ka is not None and kb is not None and ka[0] == kb[0] and ka[0] in ("lit", "num", "bool"):
+                return self.boolv((ka[1] == kb[1]) == (op == "=="))
+            if a.ty == "nat":
+                t = "(Nat.eqb %s %s)" % (self.term(a), self.term(b))
+            elif a.ty == "str":
+                t = "(str_eqb %s %s)" % (self.term(a), self.term(b))
+            else:
+                raise Rs2vError("`%s` on %s" % (op, a.ty))
+            return SubV("bool", t if op == "==" else "(negb %s)" % t)
+        if op in ("<", ">", "<=", ">="):
+            if a.ty != "nat":
+                raise Rs2vError("`%s` on %s" % (op, a.ty))
+            if ka is not None and kb is not None:
+                x, y = ka[1], kb[1]
+                return self.boolv({"<": x < y, ">": x > y, "<=": x <= y, ">=": x >= y}[op])
+            ta, tb = self.term(a), self.term(b)
+            return SubV("bool", {"<": "(Nat.ltb %s %s)" % (ta, tb), ">": "(Nat.ltb %s %s)" % (tb, ta),
+                                 "<=": "(Nat.leb %s %s)" % (ta, tb), ">=": "(Nat.leb %s %s)" % (tb, ta)}[op])
+        if op == "+":
+            # usize on nat: overflow (2^64) is outside the model
+            if a.ty != "nat":
+                raise Rs2vError("`+` on %s" % (a.ty,))
+            if ka is not None and kb is not None:
+                return SubV("nat", known=("num", ka[1] + kb[1]))
+            if kb is not None and kb[1] == 1:
+                return SubV("nat", "(S %s)" % self.term(a))
+            if ka is not None and ka[1] == 1:
+                return SubV("nat", "(S %s)" % self.term(b))
+            return SubV("nat", "(%s + %s)%%nat" % (self.term(a), self.term(b)))
+        raise Rs2vError("operator %s" % op)
+
+    def ex_logic(self, op, l, r, env, st, k, ctx):
+        def kl(a, env1, st1):
+            if a.ty != "bool":
+                raise Rs2vError("`%s` on a %s" % (op, a.ty))
+            if a.known is not None:
+                if a.known[1] == (op == "||"):
+                    return k(self.boolv(op == "||"), env1, st1)
+                return self.ex(r, env1, st1, k, ctx)
+            box = []
+            self.n += 1
+            sent = "\0pure%d\0" % self.n
+
+            def cap(b, e2, s2):
+                box.append((b, e2, s2))
+                return sent
+            saved_n = self.n
+            out = self.ex(r, env1, st1, cap, ctx)
+            if out == sent and len(box) == 1 and box[0][2] is st1:
+                b, e2, _s2 = box[0]
+                if b.ty != "bool":
+                    raise Rs2vError("`%s` on a %s" % (op, b.ty))
+                if b.known is not None:
+                    if b.known[1] == (op == "||"):
+                        return k(self.boolv(op == "||"), e2, st1)
+                    return k(a, e2, st1)
+                return k(SubV("bool", "(%s %s %s)" % (self.term(a), op, self.term(b))), e2, st1)
+            self.n = saved_n
+            self.branching("`%s` with an operand that can unwind" % op)
+            if op == "||":
+                return "if %s\nthen %s\nelse %s" % (self.term(a), k(self.boolv(True), env1, st1), self.ex(r, env1, st1, k, ctx))
+            return "if %s\nthen %s\nelse %s" % (self.term(a), self.ex(r, env1, st1, k, ctx), k(self.boolv(False), env1, st1))
+        return self.ex(l, env, st, kl, ctx)
+
+    def ex_if(self, c, b, el, env, st, k, ctx):
+        def kc(v, env1, st1):
+            if v.ty != "bool":
+                raise Rs2vError("`if` on a %s" % (v.ty,))
+
+            def els(env2, st2):
+                if el is None:
+                    return k(self.unit(), env2, st2)
+                return self.ex(el, env2, st2, k, ctx)
+            if v.known is not None:
+                return self.block(b, env1, st1, k, ctx) if v.known[1] else els(env1, st1)
+            self.branching("if")
+            return "if %s\nthen %s\nelse %s" % (self.term(v), self.block(b, env1, st1, k, ctx), els(env1, st1))
+        return self.ex(c, env, st, kc, ctx)
+
+    def ex_index(self, e, env, st, k, ctx):
+        def kb(vs, env1, st1):
+            base, ix = vs
+            if base.ty == "args":
+                if ix.known is None or ix.known[0] != "num":
+                    raise Rs2vError("arguments[..] with an index that is not a literal")
+                key = "%%arg%d" % ix.known[1]
+                if key in env1:
+                    return k(env1[key], env1, st1)
+                self.branching("arguments[%d]" % ix.known[1])
+                x = self.fresh("arg%d" % ix.known[1])
+                env2 = dict(env1)
+                env2[key] = SubV("str", x)
+                return "match nth_error %s %d%%nat with\n| None => %s\n| Some %s =>\n%s\nend" % (
+                    self.term(base), ix.known[1], self.cfg["panic"], x, k(env2[key], env2, st1))
+            if isinstance(base.ty, tuple) and base.ty[0] == "list" and ix.ty == "nat":
+                self.branching("list[i]")
+                x = self.fresh("elem")
+                elem = self.cfg["list_elem"](self, base.ty[1], x)
+                return "match nth_error %s %s with\n| None => %s\n| Some %s =>\n%s\nend" % (
+                    self.term(base), self.term(ix), self.cfg["panic"], x, k(elem, env1, st1))
+            raise Rs2vError("index into a %s" % (base.ty,))
+        return self.ex_list([e[1], e[2]], env, st, kb, ctx)
+
+    def ex_mcall(self, e, env, st, k, ctx):
+        recv, name, args = e[1], e[2], e[3]
+
+        def kr(v, env1, st1):
+            if name in self.CLONES and not args:
+                if name in ("to_string",) and v.ty not in ("str",):
+                    raise Rs2vError("to_string on a %s" % (v.ty,))
+                return k(v, env1, st1)
+            if v.ty == "map":
+                return self.map_method(recv, v, name, args, env1, st1, k, ctx)
+            if v.ty == "place":
+                return self.cfg["place_methods"](self, v, name, args, env1, st1, k, ctx)
+            if name == "len" and not args and (v.ty == "args" or (isinstance(v.ty, tuple) and v.ty[0] == "list")):
+                return k(SubV("nat", "(length %s)" % self.term(v)), env1, st1)
+            if name == "is_empty" and not args and (v.ty == "args" or (isinstance(v.ty, tuple) and v.ty[0] == "list")):
+                return k(SubV("bool", "(Nat.eqb (length %s) 0%%nat)" % self.term(v)), env1, st1)
+            h = self.cfg.get("methods", {}).get((v.ty if not isinstance(v.ty, tuple) else v.ty[:2], name))
+            if h:
+                return h(self, v, args, env1, st1, k, ctx)
+            raise Rs2vError("method %s on a %s" % (name, v.ty))
+        return self.ex(recv, env, st, kr, ctx)
+
+    def map_method(self, recv, v, name, args, env, st, k, ctx):
+        """HashMap<String, StateValue> locals with statically known content"""
+        if v.known is None or v.known[0] != "map":
+            raise Rs2vError("%s on a map whose content is not statically known" % name)
+        content, closed = v.known[1], v.known[2]
+        if name == "insert" and len(args) == 2:
+            r = sub_strip_ref(recv)
+            if r[0] != "path" or len(r[1]) != 1:
+                raise Rs2vError("insert on a map that is not a local")
+            var = r[1][0]
+
+            def ki(vs, env1, st1):
+                key, val = vs
+                if key.known is None or key.known[0] != "lit":
+                    raise Rs2vError("insert with a key that is not a literal")
+                if val.ty != "sv":
+                    raise Rs2vError("insert of a %s into a state map" % (val.ty,))
+                cur = env1[var]
+                c2 = dict(cur.known[1])
+                c2[key.known[1]] = val
+                env2 = dict(env1)
+                env2[var] = SubV("map", known=("map", c2, cur.known[2]))
+                return k(SubV("opaque"), env2, st1)
+            return self.ex_list(args, env, st, ki, ctx)
+        if name == "get" and len(args) == 1:
+            def kg(key, env1, st1):
+                if key.known is None or key.known[0] != "lit":
+                    raise Rs2vError("get with a key that is not a literal")
+                if key.known[1] in content:
+                    return k(SubV(("opt", "sv"), known=("ctor", "Some", [content[key.known[1]]])), env1, st1)
+                if closed:
+                    return k(SubV(("opt", "sv"), known=("ctor", "None", [])), env1, st1)
+                raise Rs2vError("get(%r) reads a key nothing is known about" % key.known[1])
+            return self.ex(args[0], env, st, kg, ctx)
+        raise Rs2vError("method %s on a state map" % name)
+
+    def ex_call(self, e, env, st, k, ctx):
+        f, args = e[1], e[2]
+        if f[0] != "path":
+            raise Rs2vError("call of a computed function")
+        full, last = "::".join(f[1]), f[1][-1]
+        if full in ("Some", "Ok", "Err") and len(args) == 1:
+            def kc(v, e2, s2):
+                ty = ("opt", v.ty) if full == "Some" else (("res", v.ty, None) if full == "Ok" else ("res", None, v.ty))
+                return k(SubV(ty, known=("ctor", full, [v])), e2, s2)
+            return self.ex(args[0], env, st, kc, ctx)
+        ctors = self.cfg.get("ctors", {})
+        if full in ctors:
+            ty, arity = ctors[full]
+            if len(args) != arity:
+                raise Rs2vError("%s with %d arguments" % (full, len(args)))
+            return self.ex_list(args, env, st, lambda vs, e2, s2: k(SubV(ty, known=("ctor", full, vs)), e2, s2), ctx)
+        if full == "HashMap::new" and not args:
+            return k(SubV("map", known=("map", {}, True)), env, st)
+        calls = self.cfg.get("calls", {})
+        h = calls.get(full) or calls.get(last)
+        if h:
+            return h(self, args, env, st, k, ctx)
+        inl = self.cfg.get("inline", {})
+        if last in inl and (len(f[1]) == 1):
+            return self.inline_call(last, inl[last], args, env, st, k, ctx)
+        fns = self.cfg.get("fns", {})
+        if last in fns and len(f[1]) == 1:
+            return self.fn_call(last, fns[last], args, env, st, k, ctx)
+        raise Rs2vError("call of %s: not a function the configuration knows" % full)
+
+    def inline_call(self, name, spec, args, env, st, k, ctx):
+        params, body = spec
+        if len(params) != len(args):
+            raise Rs2vError("%s: %d arguments" % (name, len(args)))
+        depth = ctx.get("depth", 0)
+        if depth > 8:
+            raise Rs2vError("%s: inlining too deep" % name)
+
+        def ka(vals, env1, st1):
+            cenv = {p: v for (p, _t), v in zip(params, vals)}
+
+            def done(v, cenv2, st2):
+                env2 = dict(env1)
+                for (p, _t), a in zip(params, args):
+                    a0 = sub_strip_ref(a)
+                    if a0[0] == "path" and len(a0[1]) == 1 and a0[1][0] in env2 and p in cenv2 and cenv2[p] is not env2[a0[1][0]]:
+                        if cenv2[p].ty in ("map",):
+                            env2[a0[1][0]] = cenv2[p]
+                return k(v, env2, st2)
+            cctx = dict(ctx, ret=done, toplevel=False, depth=depth + 1)
+            return self.block(body, cenv, st1, done, cctx)
+        return self.ex_list(args, env, st, ka, ctx)
+
+    def fn_call(self, name, spec, args, env, st, k, ctx):
+        """a call of another translated function: gbind (gen_f args state) (fun '(r, gs') => ..)"""
+        self.branching("call of %s" % name)
+        if len(spec["params"]) != len(args):
+            raise Rs2vError("%s: %d arguments" % (name, len(args)))
+
+        def ka(vals, env1, st1):
+            byname = {}
+            for (p, want), v in zip(spec["params"], vals):
+                if not self.ty_ok(v.ty, want):
+                    raise Rs2vError("%s: the argument for %s is a %s, not a %s" % (name, p, v.ty, want))
+                byname[p] = v
+            terms = [self.term(byname[p]) for p in spec["order"]]
+            gs = self.fresh("gs")
+            r = "_" if spec["ret"] == "unit" else self.fresh("r")
+            st2 = {"base": gs, "cells": {c: None for c in st1["cells"]}, "extra": dict(st1["extra"])}
+            rv = self.unit() if spec["ret"] == "unit" else SubV(spec["ret"], r)
+            return "gbind (%s) (fun '(%s, %s) =>\n%s)" % (
+                " ".join([spec["coq"]] + terms + [self.state_term(st1)]), r, gs, k(rv, env1, st2))
+        return self.ex_list(args, env, st, ka, ctx)
+
+    # ---- patterns ---------------------------------------------------------------------------------------------------
+    NULLARY = ("None", "true", "false")
+
+    def pmatch(self, pat, v):
+        """bindings (dict) when the pattern matches for sure, False when it cannot match, None when that is not known"""
+        if pat[0] == "wild":
+            return {}
+        if pat[0] == "or":
+            for a in pat[1]:
+                r = self.pmatch(a, v)
+                if r is None:
+                    return None
+                if r is not False:
+                    return r
+            return False
+        if pat[0] in ("str", "num"):
+            if v.known is not None and v.known[0] in ("lit", "num"):
+                return {} if v.known[1] == pat[1] else False
+            return None
+        if pat[0] != "ctor":
+            raise Rs2vError("pattern %r" % (pat,))
+        path, subs = pat[1], pat[2]
+        name = "::".join(path)
+        if len(path) == 1 and not subs and name not in self.NULLARY and name[:1].islower():
+            return {name: v}
+        if name in ("true", "false"):
+            if v.known is not None and v.known[0] == "bool":
+                return {} if v.known[1] == (name == "true") else False
+            return None
+        if v.known is None or v.known[0] != "ctor":
+            return None
+        if v.known[1] != name:
+            if v.known[1].split("::")[-1] == path[-1] and (len(path) == 1 or "::" not in v.known[1]):
+                pass
+            else:
+                return False
+        vals = v.known[2]
+        if len(subs) != len(vals):
+            raise Rs2vError("pattern %s with %d fields on a value with %d" % (name, len(subs), len(vals)))
+        out = {}
+        for s, x in zip(subs, vals):
+            if s is None:
+                continue
+            if isinstance(s, str):
+                out[s] = x
+                continue
+            r = self.pmatch(s, x)
+            if r is None or r is False:
+                return r
+            out.update(r)
+        return out
+
+    def arm(self, body, binds, env, st, k, ctx):
+        env2 = dict(env)
+        env2.update(binds)
+        return self.ex(body, env2, st, lambda v, e3, s3: k(v, self.leave(env, e3, restore=tuple(binds)), s3), ctx)
+
+    def match_value(self, v, arms, env, st, k, ctx):
+        undetermined = False
+        for pat, body in arms:
+            r = self.pmatch(pat, v)
+            if r is None:
+                undetermined = True
+                break
+            if r is False:
+                continue
+            return self.arm(body, r, env, st, k, ctx)
+        if not undetermined:
+            raise Rs2vError("no arm of the match applies")
+        self.branching("match")
+        if v.ty == "bool":
+            t_arm = f_arm = None
+            for pat, body in arms:
+                if pat[0] == "wild":
+                    t_arm, f_arm = t_arm or (body, {}), f_arm or (body, {})
+                elif pat[0] == "ctor" and pat[1] == ["true"]:
+                    t_arm = t_arm or (body, {})
+                elif pat[0] == "ctor" and pat[1] == ["false"]:
+                    f_arm = f_arm or (body, {})
+                else:
+                    raise Rs2vError("pattern on a bool")
+            if not t_arm or not f_arm:
+                raise Rs2vError("match on a bool that is not exhaustive")
+            return "if %s\nthen %s\nelse %s" % (self.term(v), self.arm(t_arm[0], {}, env, st, k, ctx), self.arm(f_arm[0], {}, env, st, k, ctx))
+        if isinstance(v.ty, tuple) and v.ty[0] in ("opt", "res"):
+            yes, no = ("Some", "None") if v.ty[0] == "opt" else ("Ok", "Err")
+            y_arm = n_arm = None
+            for pat, body in arms:
+                if pat[0] == "wild":
+                    y_arm, n_arm = y_arm or (body, None), n_arm or (body, None)
+                elif pat[0] == "ctor" and pat[1] == [yes] and len(pat[2]) == 1:
+                    if not (pat[2][0] is None or isinstance(pat[2][0], str)):
+                        raise Rs2vError("nested pattern on a value that is not statically known")
+                    y_arm = y_arm or (body, pat[2][0])
+                elif pat[0] == "ctor" and pat[1] == [no] and len(pat[2]) == (0 if no == "None" else 1):
+                    if pat[2] and not (pat[2][0] is None or isinstance(pat[2][0], str)):
+                        raise Rs2vError("nested pattern on a value that is not statically known")
+                    n_arm = n_arm or (body, pat[2][0] if pat[2] else None)
+                elif pat[0] == "ctor" and len(pat[1]) == 1 and not pat[2] and pat[1][0][:1].islower():
+                    raise Rs2vError("binding pattern on a value that is not statically known")
+                else:
+                    raise Rs2vError("pattern %s on a %s" % ("::".join(pat[1]) if pat[0] == "ctor" else pat[0], v.ty[0]))
+            if not y_arm or not n_arm:
+                raise Rs2vError("match that is not exhaustive")
+            x = self.fresh(y_arm[1] or "x")
+            inner = v.ty[1]
+            if inner is None:
+                raise Rs2vError("match on an option of unknown type")
+            yb = {y_arm[1]: SubV(inner, x)} if y_arm[1] else {}
+            nb = {}
+            if n_arm[1]:
+                nb = {n_arm[1]: SubV(v.ty[2] if v.ty[0] == "res" and v.ty[2] else "str", None)}
+            return "match %s with\n| Some %s =>\n%s\n| None =>\n%s\nend" % (
+                self.term(v), x if y_arm[1] else "_", self.arm(y_arm[0], yb, env, st, k, ctx), self.arm(n_arm[0], nb, env, st, k, ctx))
+        raise Rs2vError("match on a %s that is not statically known" % (v.ty,))
+
+    # ---- blocks -------------------------------------------------------------------------------------------------------
+    def block(self, b, env, st, k, ctx):
+        if b[0] != "block":
+            return self.ex(b, env, st, k, ctx)
+        stmts, tail = b[1], b[2]
+        entry = env
+
+        def out(v, env1, st1, saved):
+            return k(v, self.leave(dict(entry, **saved), env1, restore=tuple(saved)), st1)
+
+        def run(i, env1, st1, saved):
+            if i == len(stmts):
+                if tail is None:
+                    return out(self.unit(), env1, st1, saved)
+                return self.ex(tail, env1, st1, lambda v, e2, s2: out(v, e2, s2, saved), ctx)
+            s = stmts[i]
+            if s[0] == "let":
+                name = s[1]
+
+                def kl(v, e2, s2):
+                    sv = saved
+                    if name in entry and name not in saved:
+                        sv = dict(saved)
+                        sv[name] = e2[name]
+                    e3 = dict(e2)
+                    e3[name] = v
+                    return run(i + 1, e3, s2, sv)
+                return self.ex(s[2], env1, st1, kl, ctx)
+            if s[0] == "expr":
+                return self.ex(s[1], env1, st1, lambda _v, e2, s2: run(i + 1, e2, s2, saved), ctx)
+            if s[0] == "return":
+                if s[1] is None:
+                    return ctx["ret"](self.unit(), env1, st1)
+                return self.ex(s[1], env1, st1, lambda v, e2, s2: ctx["ret"](v, e2, s2), ctx)
+            if s[0] == "loop":
+                if i != len(stmts) - 1 or tail is not None:
+                    raise Rs2vError("statements after a `loop`")
+                return self.loop(s[1], env1, st1, ctx)
+            raise Rs2vError("statement %s" % s[0])
+        return run(0, env, st, {})
+
+    def loop(self, body, env, st, ctx):
+        if self.check:
+            raise Rs2vError("check mode: a loop")
+        if not ctx.get("toplevel") or not ctx.get("loop_ok"):
+            raise Rs2vError("a `loop` that is not the last statement of a translated function's body")
+        gs = self.fresh("gs")
+        st_in = {"base": gs, "cells": {c: None for c in st["cells"]}, "extra": dict(st["extra"])}
+
+        def same_extra(s2):
+            if s2["extra"] != st["extra"]:
+                raise Rs2vError("a `loop` that writes a cell outside the state record")
+
+        def lret(v, _e2, s2):
+            same_extra(s2)
+            return "GVal (LRet %s, %s)" % (ctx["ret_term"](v), self.state_term(s2))
+
+        def lnext(_v, e2, s2):
+            same_extra(s2)
+            for n in env:
+                if not n.startswith("%") and e2.get(n) is not env[n]:
+                    raise Rs2vError("the local %s is assigned inside a `loop`" % n)
+            return "GVal (LNext, %s)" % self.state_term(s2)
+        lctx = dict(ctx, ret=lret, toplevel=False)
+        text = self.block(body, env, st_in, lnext, lctx)
+        return "gloop %s (fun %s : %s =>\n%s) %s" % (self.cfg["loop_fuel"](self, st), gs, self.cfg["state_type"], text, self.state_term(st))
+
+    # ---- a whole function ---------------------------------------------------------------------------------------------
+    def function(self, body, env, base, ret_term, result, loop_ok=True):
+        """ret_term(v) -> Coq term of a returned value; result(value term, state cells) -> Coq term of the outcome"""
+        st = self.state0(base)
+
+        def ret(v, _env, st1):
+            return result(ret_term(v), st1)
+        ctx = {"ret": ret, "ret_term": ret_term, "toplevel": True, "loop_ok": loop_ok}
+        return self.block(body, env, st, ret, ctx)
+
+    def run_closed(self, body, env):
+        """CHECK mode: execute a function body on statically known values; -> (returned value, final environment)"""
+        if not self.check:
+            raise Rs2vError("run_closed outside check mode")
+        box = []
+
+        def ret(v, env1, _st1):
+            box.append((v, env1))
+            return ""
+        ctx = {"ret": ret, "ret_term": None, "toplevel": False}
+        self.block(body, env, {"base": "-", "cells": {}, "extra": {}}, ret, ctx)
+        if len(box) != 1:
+            raise Rs2vError("check mode: %d outcomes" % len(box))
+        return box[0]
+
+
+# =================================================================================================
+# Flow-state wave, builder B25 (first client: lib/gen/flowwhile_gen.py — duckscript_sdk/src/sdk/std/flowcontrol/while_mod/mod.rs).
+# Purely additive: nothing above this line is changed.  The parser extends PCmd with the `?` operator (lex_q); the executor FnFw
+# is a NEW class (continuation passing, like FnCmd / FnV) for functions that keep TYPED RECORDS in the string-keyed state map.
+#
+#   PFw / fw_parse_free / fw_parse_method / fw_struct_fields
+#   FnFw   symbolic executor.  Every Rust value is a FwV: a Coq term with a type, or a value that exists only at translation
+#          time — a struct with one FwV per field, a known Some / None / Ok / Err, a StateValue of a known variant, a LOCAL
+#          HashMap with literal keys (a Python dict on a symbolic heap), a local Vec of known length, a token for a part of the
+#          state.  Control flow copies the continuation into the branches (decision tree); `match` / `if` on a statically known
+#          value is decided here; `return` inside an inlined helper is the value of the call.
+#     * the state `&mut HashMap<String, StateValue>` is ONE Coq record (cfg["state"]: constructor, one projection per CELL).
+#       Which Rust expression denotes which cell is the configuration's (cfg["calls"] handlers return tokens); the executor
+#       knows two kinds of cell:
+#         - a typed MAP cell (string key -> record): `get_sub_state(KEY, cell)` is a SLOT — the translation case-splits on the
+#           lookup (`match aget str_eqb KEY cell with Some m => .. | None => ..`): in the Some arm the slot is the local map the
+#           cell's SERIALISER writes for m, in the None arm the empty map; the code then works on that local map (get / insert
+#           are executed, deserialisers are inlined and run on it); when the state is next observed as a whole (a call that
+#           takes the state, the end of the function) a slot that changed must again be the image of a record, which is consed
+#           in front of the cell;
+#         - a typed STACK cell (list of records, head = top): `.push(v)` — v must be the image of a record under the cell's
+#           serialiser — conses the record; `.pop()` case-splits on the list: Some(the serialised image of the head) / None.
+#       The serialised image of a record is obtained by EXECUTING the cell's serialiser (a function of the translated file) on
+#       a record of placeholders: keys, variants and nesting are read from the source on every run; every field of the record
+#       must occur exactly once.
+#     * other functions of the file are either INLINED at the call (cfg["inline"]: serialisers, deserialisers, constructors,
+#       trait methods of the command structs — also of sibling modules, cfg["modules"]) or called BY NAME (cfg["gen_calls"]:
+#       functions that are translated into their own definition; signature fixed by the configuration);
+#     * callees outside the translated files are the configuration's (cfg["calls"]: python handlers that check the arguments
+#       and emit the model's function / an oracle parameter);
+#     * `loop { .. }` whose body only changes the state: `loop_ret (fun s => ..) FUEL s DEFAULT` (FlowwhileGenLib) with the fuel
+#       and the default given by the configuration; falling off the end of the body is WCont, `return` is WRet.
+#   Everything not understood raises Rs2vError; nothing is guessed.
+class PFw(PCmd):
+    def postfix(self, e):
+        while True:
+            e = PCmd.postfix(self, e)
+            if self.opt("op", "?"):
+                e = ("try", e)
+                continue
+            return e
+
+
+def fw_parse_free(src, name):
+    """a free function (column 0) -> ([(param, type text)], return type text, body), PFw grammar"""
+    ms = list(re.finditer(r"^(?:pub(?:\([a-z]+\))?\s+)?fn\s+%s\s*\(" % re.escape(name), src, re.M))
+    if len(ms) != 1:
+        raise Rs2vError("fn %s: %d definitions" % (name, len(ms)))
+    p = PFw(lex_q(src[ms[0].start():], stop_after_item=True))
+    _n, params, body = p.fn()
+    if p.receiver is not None:
+        raise Rs2vError("fn %s has a receiver" % name)
+    return params, p.ret_type, body
+
+
+def fw_depth(text, pos):
+    """brace depth of text[pos] (comments, string and char literals respected); -1 inside a literal or comment"""
+    i, depth = 0, 0
+    str_re = re.compile(r'"(?:\\.|[^"\\])*"', re.S)
+    chr_re = re.compile(r"'(?:\\.|[^'\\])'")
+    while i < pos:
+        c = text[i]
+        j = None
+        if text.startswith("//", i):
+            j = text.find("\n", i)
+            j = len(text) if j < 0 else j
+        elif text.startswith("/*", i):
+            j = text.find("*/", i)
+            j = len(text) if j < 0 else j + 2
+        elif c == '"':
+            mm = str_re.match(text, i)
+            j = mm.end() if mm else None
+        elif c == "'":
+            mm = chr_re.match(text, i)
+            j = mm.end() if mm else None
+        if j is not None:
+            if j > pos:
+                return -1
+            i = j
+            continue
+        if c == "{":
+            depth += 1
+        elif c == "}":
+            depth -= 1
+        i += 1
+    return depth
+
+
+def fw_parse_method(src, type_name, name, trait=None):
+    """`fn name` of `impl [trait for] type_name { .. }` -> (receiver, [(param, type text)], return type text, body)"""
+    head = r"^\s*impl\s+%s\s+for\s+%s\s*\{" % (re.escape(trait), re.escape(type_name)) if trait else \
+        r"^\s*impl\s+%s\s*\{" % re.escape(type_name)
+    ms = list(re.finditer(head, src, re.M))
+    if len(ms) != 1:
+        raise Rs2vError("impl %s%s: %d blocks" % ((trait + " for ") if trait else "", type_name, len(ms)))
+    body = balanced_block(src, ms[0].end() - 1)
+    fs = [m for m in re.finditer(r"\bfn\s+%s\s*\(" % re.escape(name), body) if fw_depth(body, m.start()) == 0]
+    if len(fs) != 1:
+        raise Rs2vError("fn %s: %d definitions in impl %s" % (name, len(fs), type_name))
+    p = PFw(lex_q(body[fs[0].start():], stop_after_item=True))
+    _n, params, blk = p.fn()
+    return p.receiver, params, p.ret_type, blk
+
+
+def fw_struct_fields(src, name):
+    """[(field, type text)] of `struct NAME { [pub[(crate)]] f: T, .. }`"""
+    ms = list(re.finditer(r"^(?:pub(?:\([a-z]+\))?\s+)?struct\s+%s\s*\{" % re.escape(name), src, re.M))
+    if len(ms) != 1:
+        raise Rs2vError("struct %s: %d definitions" % (name, len(ms)))
+    body = re.sub(r"//[^\n]*", "", balanced_block(src, ms[0].end() - 1))
+    out = []
+    for part in body.split(","):
+        part = part.strip()
+        if not part:
+            continue
+        m = re.fullmatch(r"(?:pub(?:\([a-z]+\))?\s+)?(\w+)\s*:\s*(.+)", part, re.S)
+        if not m:
+            raise Rs2vError("struct %s: field %r" % (name, part))
+        out.append((m.group(1), "".join(m.group(2).split())))
+    return out
+
+
+class FwV:
+    """a symbolic Rust value.  k: "term" (ty, term, lit = the Python value of a literal or None) | "struct" (name, fields) |
+    "opt" (tag Some / None, val) | "res" (tag Ok / Err, val) | "sv" (tag = the StateValue variant, val) | "dict" (addr) |
+    "vec" (addr) | "tok" (what) | "unit" """
+    __slots__ = ("k", "ty", "term", "lit", "name", "fields", "tag", "val", "addr", "what")
+
+    def __init__(self, k, **kw):
+        self.k = k
+        for s in self.__slots__[1:]:
+            setattr(self, s, kw.get(s))
+
+    def __repr__(self):
+        return "FwV(%s)" % ", ".join("%s=%r" % (s, getattr(self, s)) for s in self.__slots__ if getattr(self, s) is not None)
+
+
+def fw_term(ty, term, lit=None):
+    return FwV("term", ty=ty, term=term, lit=lit)
+
+
+FW_UNIT = FwV("unit")
+
+
+def fw_ind(text, n=2):
+    pad = " " * n
+    return "\n".join(pad + l if l else l for l in text.split("\n"))
+
+
+def fw_same(a, b):
+    """structural equality of two symbolic values (heap addresses compare by address)"""
+    if a is b:
+        return True
+    if a is None or b is None or a.k != b.k:
+        return False
+    if a.k == "term":
+        return a.term == b.term
+    if a.k == "struct":
+        return a.name == b.name and sorted(a.fields) == sorted(b.fields) and all(fw_same(a.fields[f], b.fields[f]) for f in a.fields)
+    if a.k in ("opt", "res", "sv"):
+        return a.tag == b.tag and (a.val is b.val or fw_same(a.val, b.val))
+    if a.k in ("dict", "vec"):
+        return a.addr == b.addr
+    if a.k == "tok":
+        return a.what == b.what
+    return a.k == "unit"
+
+
+class FwSt:
+    """the symbolic machine state: env (name -> FwV), heap (addr -> dict / list), cells (cell -> Coq term), base (the Coq
+    term the cells started from), slots ([(cell, key term, addr, record term or None)])"""
+
+    def __init__(self, env, heap, cells, base, slots):
+        self.env, self.heap, self.cells, self.base, self.slots = env, heap, cells, base, slots
+
+    def copy(self):
+        return FwSt(dict(self.env), {a: (dict(v) if isinstance(v, dict) else list(v)) for a, v in self.heap.items()},
+                    dict(self.cells), self.base, list(self.slots))
+
+
+FW_IDENT_METHODS = ("clone", "to_string", "to_owned", "as_str", "as_ref", "into", "borrow", "to_vec", "as_mut", "as_slice")
+
+
+class FnFw:
+    """cfg keys:
+      state        {"type": coq type, "mk": "(mkWS %s %s %s %s)", "cells": [(cell, "(ws_x %s)")], "var": name of the parameter}
+                   or None for functions that have no state
+      structs      {Rust struct: {"fields": [f..] (order of mk), "mk": fmt, "proj": {f: fmt}, "types": {f: ty}, "coq": coq type}}
+      struct_src   {Rust struct: source text it is declared in} (the field list is read from there and must agree)
+      cells        {cell: {"kind": "map" | "stack", "struct": S, "ser": fn name, "put": fmt(key, rec, cell), "get": fmt(key, cell)}}
+      src          text of the translated file; modules {name: text of a sibling module}; statics {NAME: FwV}
+      inline       set of free functions of `src` that are executed at the call
+      gen_calls    {fn: {"coq": name, "args": [..what each Rust argument must be..], "ret": ty or None, "state": "rw"|"ro"|None}}
+      calls        {path text: handler(fw, args (FwV list), arg exprs, st, ctx, k) -> text}
+      ctors        {path text: handler(fw, args (FwV list)) -> FwV}
+      cmd_structs  {Rust struct: module name or None (= src)}: structs whose `new` / trait methods are inlined
+      loop         {"fuel": fmt(state term), "default": f(fw, st) -> term}
+      result       f(fw, v, st) -> coq term of the function result (given the value and the final state)"""
+
+    def __init__(self, cfg):
+        self.cfg = cfg
+        self.n = 0
+        self.addr = 0
+        self.schemas = {}
+
+    # ---- small helpers
+    def fresh(self, hint):
+        self.n += 1
+        h = re.sub(r"\W", "_", hint or "v").strip("_") or "v"
+        if h[0].isdigit():
+            h = "v" + h
+        return "%s%d" % (h, self.n)
+
+    def new_addr(self):
+        self.addr += 1
+        return self.addr
+
+    def src_of(self, module):
+        if module is None:
+            return self.cfg["src"]
+        if module not in self.cfg.get("modules", {}):
+            raise Rs2vError("module %s is not available" % module)
+        return self.cfg["modules"][module]
+
+    def strip(self, e):
+        while e[0] in ("ref", "refmut") or (e[0] == "block" and not e[1] and e[2] is not None):
+            e = e[1] if e[0] != "block" else e[2]
+        return e
+
+    # ---- state
+    def init_state(self, env):
+        sc = self.cfg.get("state")
+        cells = {}
+        base = None
+        if sc:
+            base = sc["var"]
+            cells = {c: proj % base for c, proj in sc["cells"]}
+        return FwSt(env, {}, cells, base, [])
+
+    def rebase(self, st, term):
+        """the state is now the Coq term `term` (a variable or an application): every cell is its projection"""
+        st = st.copy()
+        st.base = term
+        st.cells = {c: proj % term for c, proj in self.cfg["state"]["cells"]}
+        st.slots = []
+        return st
+
+    def flush(self, st):
+        """write every changed slot back into its cell; the slots end here"""
+        if not st.slots:
+            return st
+        st = st.copy()
+        for cell, key, addr, orig in st.slots:
+            cur = st.heap[addr]
+            cc = self.cfg["cells"][cell]
+            if orig is None:
+                before = {}
+            else:
+                before = self.image_of(cell, fw_term(("struct", cc["struct"]), orig))
+            if self.dict_same(cur, before, st):
+                continue
+            rec = self.unify(cell, cur, st)
+            st.cells[cell] = cc["put"] % (key, self.to_term(rec, st), st.cells[cell])
+        st.slots = []
+        return st
+
+    def state_term(self, st):
+        sc = self.cfg.get("state")
+        if not sc:
+            raise Rs2vError("the function has no state")
+        st = self.flush(st)
+        if all(st.cells[c] == proj % st.base for c, proj in sc["cells"]):
+            return st.base
+        return sc["mk"] % tuple(st.cells[c] for c, _p in sc["cells"])
+
+    # ---- records and their serialised images
+    def struct_cfg(self, name):
+        sc = self.cfg.get("structs", {}).get(name)
+        if sc is None:
+            raise Rs2vError("struct %s has no model type" % name)
+        return sc
+
+    def check_struct(self, name):
+        sc = self.struct_cfg(name)
+        src = self.cfg.get("struct_src", {}).get(name, self.cfg["src"])
+        got = fw_struct_fields(src, name)
+        if [f for f, _t in got] != list(sc["fields"]):
+            raise Rs2vError("struct %s has fields %s, the model record has %s" % (name, [f for f, _t in got], list(sc["fields"])))
+        for f, t in got:
+            want = sc["rust_types"][f]
+            if t != want:
+                raise Rs2vError("struct %s: field %s has type %s, the model keeps a %s" % (name, f, t, want))
+
+    def explode(self, v):
+        """a struct-typed term as a struct value whose fields are projections"""
+        if v.k == "struct":
+            return v
+        if v.k == "term" and isinstance(v.ty, tuple) and v.ty[0] == "struct":
+            sc = self.struct_cfg(v.ty[1])
+            return FwV("struct", name=v.ty[1], fields={f: fw_term(sc["types"][f], sc["proj"][f] % v.term) for f in sc["fields"]})
+        raise Rs2vError("a struct value was expected, found %r" % (v,))
+
+    def deep_explode(self, v):
+        v = self.explode(v)
+        out = {}
+        for f, x in v.fields.items():
+            if (x.k == "struct") or (x.k == "term" and isinstance(x.ty, tuple) and x.ty[0] == "struct"):
+                out[f] = self.deep_explode(x)
+            else:
+                out[f] = x
+        return FwV("struct", name=v.name, fields=out)
+
+    def schema(self, cell):
+        """(placeholder struct, image dict) of the cell's record type, by executing its serialiser on placeholders"""
+        if cell in self.schemas:
+            return self.schemas[cell]
+        cc = self.cfg["cells"][cell]
+        leaves = []
+
+        def holes(name, path):
+            self.check_struct(name)
+            sc = self.struct_cfg(name)
+            fields = {}
+            for f in sc["fields"]:
+                t = sc["types"][f]
+                if isinstance(t, tuple) and t[0] == "struct":
+                    fields[f] = holes(t[1], path + [f])
+                else:
+                    ph = "\0hole:%s" % ".".join(path + [f])
+                    leaves.append(ph)
+                    fields[f] = fw_term(t, ph)
+            return FwV("struct", name=name, fields=fields)
+        rec = holes(cc["struct"], [])
+        img = self.run_serialiser(cc["ser"], rec)
+        found = []
+
+        def walk(d):
+            for _k, x in sorted(d.items()):
+                if x.k != "sv":
+                    raise Rs2vError("%s stores something that is not a StateValue" % cc["ser"])
+                if x.val.k == "dict":
+                    walk(x.val.fields)
+                elif x.val.k == "term" and x.val.term in leaves:
+                    found.append(x.val.term)
+                else:
+                    raise Rs2vError("%s stores a value that is not a field of the record: %r" % (cc["ser"], x.val))
+        walk(img)
+        if sorted(found) != sorted(leaves):
+            raise Rs2vError("%s does not store every field of %s exactly once (stored: %s)" % (
+                cc["ser"], cc["struct"], ", ".join(x[6:] for x in found)))
+        self.schemas[cell] = (rec, img)
+        return self.schemas[cell]
+
+    def run_serialiser(self, ser, rec):
+        """execute `ser(&rec, &mut HashMap::new())`; the result as a frozen nested dict: key -> FwV("sv", val = term | frozen dict)"""
+        params, _ret, body = fw_parse_free(self.cfg["src"], ser)
+        if len(params) != 2:
+            raise Rs2vError("%s: %d parameters" % (ser, len(params)))
+        st = FwSt({}, {}, {}, None, [])
+        a = self.new_addr()
+        st.heap[a] = {}
+        st.env = {params[0][0]: rec, params[1][0]: FwV("dict", addr=a)}
+        out = []
+
+        def done(st2, _v):
+            out.append(self.freeze(st2.heap[a], st2))
+            return ""
+        ctx = {"ret": done, "loop": None, "pure": True}
+        self.block(body, st, ctx, done)
+        if len(out) != 1:
+            raise Rs2vError("%s has %d paths (a serialiser must be straight-line code)" % (ser, len(out)))
+        return out[0]
+
+    def freeze(self, d, st):
+        out = {}
+        for k, x in d.items():
+            if x.k == "sv" and x.val is not None and x.val.k == "dict":
+                out[k] = FwV("sv", tag=x.tag, val=FwV("dict", fields=self.freeze(st.heap[x.val.addr], st)))
+            else:
+                out[k] = x
+        return out
+
+    def thaw(self, frozen, st, subst):
+        """allocate a frozen image on the heap of st (in place), placeholders replaced through subst; returns the address"""
+        a = self.new_addr()
+        d = {}
+        for k, x in frozen.items():
+            if x.val.k == "dict":
+                d[k] = FwV("sv", tag=x.tag, val=FwV("dict", addr=self.thaw(x.val.fields, st, subst)))
+            else:
+                d[k] = FwV("sv", tag=x.tag, val=subst(x.val))
+        st.heap[a] = d
+        return a
+
+    def image_of(self, cell, rec):
+        """the frozen image of a record value under the cell's serialiser"""
+        ph, img = self.schema(cell)
+        rec = self.deep_explode(rec)
+        table = {}
+
+        def fill(p, r):
+            for f, x in p.fields.items():
+                if x.k == "struct":
+                    fill(x, r.fields[f])
+                else:
+                    table[x.term] = r.fields[f]
+        fill(ph, rec)
+
+        def sub(d):
+            out = {}
+            for k, x in d.items():
+                if x.val.k == "dict":
+                    out[k] = FwV("sv", tag=x.tag, val=FwV("dict", fields=sub(x.val.fields)))
+                else:
+                    out[k] = FwV("sv", tag=x.tag, val=table[x.val.term])
+            return out
+        return sub(img)
+
+    def dict_same(self, cur, frozen, st):
+        """is the heap dict `cur` (values may point into st.heap) the frozen image `frozen`?"""
+        if sorted(cur) != sorted(frozen):
+            return False
+        for k, x in cur.items():
+            y = frozen[k]
+            if x.k != "sv" or x.tag != y.tag:
+                return False
+            if x.val.k == "dict":
+                if y.val.k != "dict" or not self.dict_same(st.heap[x.val.addr], y.val.fields, st):
+                    return False
+            elif y.val.k == "dict" or not fw_same(x.val, y.val):
+                return False
+        return True
+
+    def unify(self, cell, cur, st):
+        """the record whose image under the cell's serialiser is the heap dict `cur`"""
+        ph, img = self.schema(cell)
+        cc = self.cfg["cells"][cell]
+        found = {}
+
+        def walk(c, i, where):
+            if sorted(c) != sorted(i):
+                raise Rs2vError("the map stored in %s has the keys %s, %s writes %s" % (where, sorted(c), cc["ser"], sorted(i)))
+            for k, x in c.items():
+                y = i[k]
+                if x.k != "sv" or x.tag != y.tag:
+                    raise Rs2vError("the map stored in %s holds %r under %r, %s writes StateValue::%s" % (where, x, k, cc["ser"], y.tag))
+                if y.val.k == "dict":
+                    if x.val.k != "dict":
+                        raise Rs2vError("the map stored in %s: %r is not a sub-state" % (where, k))
+                    walk(st.heap[x.val.addr], y.val.fields, where)
+                else:
+                    if x.val.k != "term" or x.val.ty != y.val.ty:
+                        raise Rs2vError("the map stored in %s: the value under %r is a %r, the record keeps a %s" % (
+                            where, k, x.val, y.val.ty))
+                    found[y.val.term] = x.val
+        walk(cur, img, cell)
+
+        def build(p):
+            return FwV("struct", name=p.name, fields={f: (build(x) if x.k == "struct" else found[x.term]) for f, x in p.fields.items()})
+        return build(ph)
+
+    # ---- Coq terms of values
+    def to_term(self, v, st):
+        if v.k == "term":
+            if v.term.startswith("\0"):
+                raise Rs2vError("a placeholder escaped")
+            return v.term
+        if v.k == "struct":
+            sc = self.struct_cfg(v.name)
+            parts = [self.to_term(v.fields[f], st) for f in sc["fields"]]
+            # record eta: mk (p1 x) .. (pn x) is x
+            m0 = None
+            for f, p in zip(sc["fields"], parts):
+                fmt = sc["proj"][f]
+                pre, post = fmt.split("%s")
+                if p.startswith(pre) and p.endswith(post) and len(p) > len(pre) + len(post):
+                    x = p[len(pre):len(p) - len(post)]
+                    if m0 is None:
+                        m0 = x
+                    if m0 == x and self.balanced(x):
+                        continue
+                m0 = False
+                break
+            if m0:
+                return m0
+            return sc["mk"] % tuple(parts)
+        if v.k == "opt":
+            return "None" if v.tag == "None" else "(Some %s)" % self.to_term(v.val, st)
+        if v.k == "res":
+            return "(%s %s)" % ("inl" if v.tag == "Ok" else "inr", self.to_term(v.val, st))
+        if v.k == "vec":
+            return "[" + "; ".join(self.to_term(x, st) for x in st.heap[v.addr]) + "]"
+        if v.k == "unit":
+            return "tt"
+        raise Rs2vError("a value that has no Coq term: %r" % (v,))
+
+    def balanced(self, x):
+        d = 0
+        for c in x:
+            if c in "([":
+                d += 1
+            elif c in ")]":
+                d -= 1
+                if d < 0:
+                    return False
+        return d == 0 and (" " not in x or (x.startswith("(") and x.endswith(")")))
+
+    def type_of(self, v):
+        if v.k == "term":
+            return v.ty
+        if v.k == "struct":
+            return ("struct", v.name)
+        if v.k == "unit":
+            return "unit"
+        return None
+
+    # ---- blocks and statements
+    def block(self, b, st, ctx, k):
+        if b[0] != "block":
+            return self.ev(b, st, ctx, k)
+        outer = dict(st.env)
+
+        def leave(st2, v):
+            st3 = st2.copy()
+            st3.env = {n: st2.env[n] for n in outer if n in st2.env}
+            return k(st3, v)
+        return self.stmts(b[1], 0, b[2], st, ctx, leave, set(outer) if ctx.get("nested") else None)
+
+    def stmts(self, ss, i, tail, st, ctx, k, outer_names):
+        if i == len(ss):
+            if tail is None:
+                return k(st, FW_UNIT)
+            return self.ev(tail, st, ctx, k)
+        s = ss[i]
+        nxt = lambda st2: self.stmts(ss, i + 1, tail, st2, ctx, k, outer_names)  # noqa: E731
+        kind = s[0]
+        if kind == "let":
+            name, e = s[1], s[2]
+            if outer_names is not None and name in outer_names:
+                raise Rs2vError("a nested block re-declares %s" % name)
+
+            def bound(st2, v):
+                if v.k == "unit":
+                    raise Rs2vError("let %s = a unit value" % name)
+                st3 = st2.copy()
+                st3.env[name] = v
+                return nxt(st3)
+            return self.ev(e, st, ctx, bound)
+        if kind == "expr" and s[1] == ("path", ["continue"]) and ctx.get("continue") is not None:
+            return ctx["continue"](st)
+        if kind == "expr":
+            return self.ev(s[1], st, ctx, lambda st2, _v: nxt(st2))
+        if kind == "return":
+            if s[1] is None:
+                return ctx["ret"](st, FW_UNIT)
+            return self.ev(s[1], st, ctx, lambda st2, v: ctx["ret"](st2, v))
+        if kind == "loop":
+            return self.loop(s[1], st, ctx, nxt)
+        if kind == "assign" and s[2] == "=" and s[1][0] == "path" and len(s[1][1]) == 1 and s[1][1][0] in st.env:
+            name = s[1][1][0]
+
+            def assigned(st2, v):
+                st3 = st2.copy()
+                st3.env[name] = v
+                return nxt(st3)
+            return self.ev(s[3], st, ctx, assigned)
+        raise Rs2vError("statement %s" % kind)
+
+    # ---- loops
+    def loop(self, body, st, ctx, nxt):
+        lc = self.cfg.get("loop")
+        if lc is None or ctx.get("loop") is not None or ctx.get("inline"):
+            raise Rs2vError("a loop the configuration does not describe")
+        sc = self.cfg["state"]
+        s_in = self.state_term(st)
+        st = self.flush(st)
+        var = self.fresh("s")
+        st_body = self.rebase(st, var)
+        env_before = dict(st.env)
+
+        def fell_off(st2, _v):
+            for n, x in env_before.items():
+                if n in st2.env and not fw_same(st2.env[n], x):
+                    raise Rs2vError("the loop body changes the local %s" % n)
+            return "WCont %s" % self.state_term(st2)
+        lctx = dict(ctx)
+        lctx["loop"] = True
+        lctx["nested"] = True
+        outer_ret = ctx["ret"]
+
+        def ret_in_loop(st2, v):
+            return "WRet %s" % self.paren(outer_ret(st2, v))
+        lctx["ret"] = ret_in_loop
+        lctx["continue"] = lambda st2: fell_off(st2, FW_UNIT)
+        body_text = self.block(body, st_body, lctx, fell_off)
+        default = lc["default"](self, st)
+        # after the loop nothing runs: the loop only ends through `return`
+        _ = nxt
+        return "loop_ret (fun %s : %s =>\n%s)\n  %s %s %s" % (var, sc["type"], fw_ind(body_text), lc["fuel"] % s_in, s_in, default)
+
+    def paren(self, t):
+        t = t.strip()
+        if "\n" in t or " " in t:
+            if t.startswith("(") and t.endswith(")") and self.balanced(t[1:-1]) and self.closes(t):
+                return t
+            return "(" + t + ")"
+        return t
+
+    def closes(self, t):
+        """is the opening parenthesis at 0 closed by the last character?"""
+        d = 0
+        for i, c in enumerate(t):
+            if c == "(":
+                d += 1
+            elif c == ")":
+                d -= 1
+                if d == 0:
+                    return i == len(t) - 1
+        return False
+
+    # ---- expressions
+    def ev_list(self, es, st, ctx, k, acc=None):
+        acc = acc or []
+        if not es:
+            return k(st, acc)
+        return self.ev(es[0], st, ctx, lambda st2, v: self.ev_list(es[1:], st2, ctx, k, acc + [v]))
+
+    def lit_str(self, s):
+        return fw_term("str", coq_str_lit(s), lit=s)
+
+    def ev(self, e, st, ctx, k):
+        kind = e[0]
+        if kind in ("ref", "refmut"):
+            return self.ev(e[1], st, ctx, k)
+        if kind == "str":
+            return k(st, self.lit_str(e[1]))
+        if kind == "num":
+            return k(st, fw_term("nat", str(e[1]), lit=e[1]))
+        if kind == "bool":
+            return k(st, fw_term("bool", "true" if e[1] else "false", lit=e[1]))
+        if kind == "tuple" and not e[1]:
+            return k(st, FW_UNIT)
+        if kind == "block":
+            nctx = dict(ctx)
+            nctx["nested"] = True
+            return self.block(e, st, nctx, k)
+        if kind == "path":
+            return self.path(e[1], st, ctx, k)
+        if kind == "field":
+            return self.ev(e[1], st, ctx, lambda st2, v: k(st2, self.field(v, e[2])))
+        if kind == "struct":
+            return self.struct_lit(e, st, ctx, k)
+        if kind == "macro":
+            return self.macro(e, st, ctx, k)
+        if kind == "call":
+            return self.call(e, st, ctx, k)
+        if kind == "mcall":
+            return self.mcall(e, st, ctx, k)
+        if kind == "if":
+            return self.if_(e, st, ctx, k)
+        if kind == "match":
+            return self.match(e, st, ctx, k)
+        if kind == "iflet":
+            els = e[4] if e[4] is not None else ("block", [], None)
+            return self.match(("match", e[2], [(e[1], e[3]), (("wild",), els)]), st, ctx, k)
+        if kind == "bin":
+            return self.bin(e, st, ctx, k)
+        if kind == "not":
+            def neg(st2, v):
+                if v.k != "term" or v.ty != "bool":
+                    raise Rs2vError("`!` on %r" % (v,))
+                if isinstance(v.lit, bool):
+                    return k(st2, fw_term("bool", "false" if v.lit else "true", lit=not v.lit))
+                return k(st2, fw_term("bool", "(negb %s)" % v.term))
+            return self.ev(e[1], st, ctx, neg)
+        if kind == "try":
+            def tried(st2, v):
+                return self.match_value(v, [(("ctor", ["Ok"], ["%try"]), ("path", ["%try"])),
+                                            (("ctor", ["Err"], ["%try"]), ("block", [("return", ("call", ("path", ["Err"]), [("path", ["%try"])]))], None))],
+                                        st2, ctx, k)
+            return self.ev(e[1], st, ctx, tried)
+        raise Rs2vError("expression %s" % kind)
+
+    def path(self, p, st, ctx, k):
+        if len(p) == 1:
+            n = p[0]
+            if n in st.env:
+                return k(st, st.env[n])
+            if n == "None":
+                return k(st, FwV("opt", tag="None"))
+            if n in self.cfg.get("statics", {}):
+                return k(st, self.cfg["statics"][n])
+            raise Rs2vError("unknown name %s" % n)
+        if len(p) == 2 and p[0] in self.cfg.get("modules", {}):
+            key = "::".join(p)
+            if key in self.cfg.get("statics", {}):
+                return k(st, self.cfg["statics"][key])
+        txt = "::".join(p)
+        if txt in self.cfg.get("ctors", {}):
+            return k(st, self.cfg["ctors"][txt](self, []))
+        raise Rs2vError("unknown path %s" % txt)
+
+    def field(self, v, f):
+        if v.k == "struct":
+            if f not in v.fields:
+                raise Rs2vError("struct %s has no field %s" % (v.name, f))
+            return v.fields[f]
+        if v.k == "term" and isinstance(v.ty, tuple) and v.ty[0] == "struct":
+            sc = self.struct_cfg(v.ty[1])
+            if f not in sc["proj"]:
+                raise Rs2vError("struct %s has no field %s" % (v.ty[1], f))
+            return fw_term(sc["types"][f], sc["proj"][f] % v.term)
+        raise Rs2vError("field %s of %r" % (f, v))
+
+    def struct_lit(self, e, st, ctx, k):
+        name = e[1][-1]
+        names = [f for f, _x in e[2]]
+
+        def built(st2, vs):
+            if name in self.cfg.get("structs", {}):
+                sc = self.struct_cfg(name)
+                self.check_struct(name)
+                if sorted(names) != sorted(sc["fields"]):
+                    raise Rs2vError("struct literal %s with the fields %s" % (name, names))
+            elif name in self.cfg.get("cmd_structs", {}):
+                want = [f for f, _t in fw_struct_fields(self.src_of(self.cfg["cmd_structs"][name]), name)]
+                if sorted(names) != sorted(want):
+                    raise Rs2vError("struct literal %s with the fields %s" % (name, names))
+            else:
+                raise Rs2vError("struct literal of the unknown struct %s" % name)
+            return k(st2, FwV("struct", name=name, fields=dict(zip(names, vs))))
+        return self.ev_list([x for _f, x in e[2]], st, ctx, built)
+
+    def macro(self, e, st, ctx, k):
+        if e[1] == "vec":
+            def made(st2, vs):
+                st3 = st2.copy()
+                a = self.new_addr()
+                st3.heap[a] = list(vs)
+                return k(st3, FwV("vec", addr=a))
+            return self.ev_list(e[2], st, ctx, made)
+        raise Rs2vError("macro %s!" % e[1])
+
+    def bin(self, e, st, ctx, k):
+        op = e[1]
+
+        def got(st2, vs):
+            a, b = vs
+            if a.k != "term" or b.k != "term":
+                raise Rs2vError("operator %s on %r and %r" % (op, a, b))
+            if op in ("&&", "||"):
+                if a.ty != "bool" or b.ty != "bool":
+                    raise Rs2vError("operator %s on non-booleans" % op)
+                return k(st2, fw_term("bool", "(%s %s %s)" % ("andb" if op == "&&" else "orb", a.term, b.term)))
+            if op in ("==", "!="):
+                if a.ty != b.ty or a.ty not in ("nat", "str", "bool"):
+                    raise Rs2vError("comparison of a %s with a %s" % (a.ty, b.ty))
+                f = {"nat": "Nat.eqb", "str": "str_eqb", "bool": "Bool.eqb"}[a.ty]
+                t = "(%s %s %s)" % (f, a.term, b.term)
+                return k(st2, fw_term("bool", t if op == "==" else "(negb %s)" % t))
+            if op == "+" and a.ty == "nat" and b.ty == "nat":
+                # usize addition of a line number: bounded by the instruction count (no overflow), see the client
+                return k(st2, fw_term("nat", "(%s + %s)" % (a.term, b.term)))
+            raise Rs2vError("operator %s on %s" % (op, a.ty))
+        # the right operand of && / || must be free of effects and of case splits: then evaluating both is short-circuiting
+        if op in ("&&", "||") and not self.simple(e[3]):
+            raise Rs2vError("the right operand of %s is not a simple expression" % op)
+        return self.ev_list([e[2], e[3]], st, ctx, got)
+
+    def simple(self, e):
+        k = e[0]
+        if k in ("path", "str", "num", "bool"):
+            return True
+        if k in ("ref", "refmut", "not", "field"):
+            return self.simple(e[1])
+        if k == "bin":
+            return self.simple(e[2]) and self.simple(e[3])
+        if k == "mcall":
+            return (e[2] in FW_IDENT_METHODS or e[2] == "is_empty") and not e[3] and self.simple(e[1])
+        return False
+
+    def if_(self, e, st, ctx, k):
+        def cond(st2, c):
+            if c.k != "term" or c.ty != "bool":
+                raise Rs2vError("if on %r" % (c,))
+            els = e[3] if e[3] is not None else ("block", [], None)
+            nctx = dict(ctx)
+            nctx["nested"] = True
+            if isinstance(c.lit, bool):
+                return self.block(e[2] if c.lit else els, st2, nctx, k)
+            a = self.block(e[2], st2.copy(), nctx, k)
+            b = self.block(els, st2.copy(), nctx, k)
+            return "if %s\nthen\n%s\nelse\n%s" % (c.term, fw_ind(a), fw_ind(b))
+        return self.ev(e[1], st, ctx, cond)
+
+    # ---- match
+    def match(self, e, st, ctx, k):
+        return self.ev(e[1], st, ctx, lambda st2, v: self.match_value(v, e[2], st2, ctx, k))
+
+    def arm(self, body, binds, st, ctx, k):
+        st2 = st.copy()
+        shadow = {n: st.env.get(n) for n in binds}
+        st2.env.update(binds)
+        nctx = dict(ctx)
+        nctx["nested"] = True
+
+        def leave(st3, v):
+            st4 = st3.copy()
+            for n, old in shadow.items():
+                if old is None:
+                    st4.env.pop(n, None)
+                else:
+                    st4.env[n] = old
+            return k(st4, v)
+        return self.block(body, st2, nctx, leave) if body[0] == "block" else self.ev(body, st2, nctx, leave)
+
+    def pat_ctor(self, pat):
+        if pat[0] != "ctor":
+            return None
+        return pat[1][-1], pat[2]
+
+    def match_value(self, v, arms, st, ctx, k):
+        # statically known values: the first arm that matches
+        if v.k in ("opt", "res", "sv"):
+            for pat, body in arms:
+                if pat == ("wild",):
+                    return self.arm(body, {}, st, ctx, k)
+                pc = self.pat_ctor(pat)
+                if pc is None:
+                    raise Rs2vError("pattern %r" % (pat,))
+                name, subs = pc
+                if v.k == "sv" and (len(pat[1]) != 2 or pat[1][0] != "StateValue"):
+                    raise Rs2vError("pattern %r on a StateValue" % (pat,))
+                if name != v.tag:
+                    continue
+                if v.tag == "None":
+                    if subs:
+                        raise Rs2vError("pattern None(..)")
+                    return self.arm(body, {}, st, ctx, k)
+                if len(subs) != 1:
+                    raise Rs2vError("pattern %r" % (pat,))
+                return self.arm(body, ({subs[0]: v.val} if subs[0] else {}), st, ctx, k)
+            raise Rs2vError("no arm for %s" % v.tag)
+        if v.k == "term" and isinstance(v.ty, tuple) and v.ty[0] in ("opt", "res"):
+            tags = ("Some", "None") if v.ty[0] == "opt" else ("Ok", "Err")
+            chosen = {}
+            for pat, body in arms:
+                if pat == ("wild",):
+                    for t in tags:
+                        chosen.setdefault(t, (None, body))
+                    break
+                pc = self.pat_ctor(pat)
+                if pc is None or pc[0] not in tags or len(pat[1]) != 1:
+                    raise Rs2vError("pattern %r on an %s" % (pat, v.ty[0]))
+                chosen.setdefault(pc[0], (pc[1], body))
+            if sorted(chosen) != sorted(tags):
+                raise Rs2vError("match on an %s without an arm for every case" % v.ty[0])
+            out = []
+            for t in tags:
+                subs, body = chosen[t]
+                if t == "None":
+                    out.append("| None =>\n%s" % fw_ind(self.arm(body, {}, st.copy(), ctx, k)))
+                    continue
+                inner = v.ty[1] if t in ("Some", "Ok") else v.ty[2]
+                binds = {}
+                var = "_"
+                if subs:
+                    if len(subs) != 1:
+                        raise Rs2vError("pattern %s with %d fields" % (t, len(subs)))
+                    if subs[0]:
+                        var = self.fresh(subs[0])
+                        binds = {subs[0]: fw_term(inner, var)}
+                elif t != "None" and subs is not None:
+                    raise Rs2vError("pattern %s without a field" % t)
+                coq = {"Some": "Some", "Ok": "inl", "Err": "inr"}[t]
+                out.append("| %s %s =>\n%s" % (coq, var, fw_ind(self.arm(body, binds, st.copy(), ctx, k))))
+            return "match %s with\n%s\nend" % (v.term, "\n".join(out))
+        if len(arms) == 1 and arms[0][0] == ("wild",):
+            return self.arm(arms[0][1], {}, st, ctx, k)
+        raise Rs2vError("match on %r" % (v,))
+
+    # ---- calls
+    def call(self, e, st, ctx, k):
+        f = self.strip(e[1])
+        if f[0] != "path":
+            raise Rs2vError("call of a computed function")
+        p = f[1]
+        txt = "::".join(p)
+        last = p[-1]
+        if txt in ("Some", "Ok", "Err"):
+            if len(e[2]) != 1:
+                raise Rs2vError("%s with %d arguments" % (txt, len(e[2])))
+            return self.ev(e[2][0], st, ctx, lambda st2, v: k(st2, FwV("opt" if txt == "Some" else "res", tag=txt, val=v)))
+        if txt == "HashMap::new" and not e[2]:
+            st2 = st.copy()
+            a = self.new_addr()
+            st2.heap[a] = {}
+            return k(st2, FwV("dict", addr=a))
+        if txt in ("String::from", "Box::new") and len(e[2]) == 1:
+            return self.ev(e[2][0], st, ctx, k)
+        if txt == "String::new" and not e[2]:
+            return k(st, self.lit_str(""))
+        if len(p) == 2 and p[0] == "StateValue" and len(e[2]) == 1:
+            return self.ev(e[2][0], st, ctx, lambda st2, v: k(st2, FwV("sv", tag=p[1], val=v)))
+        ctors = self.cfg.get("ctors", {})
+        if txt in ctors:
+            return self.ev_list(e[2], st, ctx, lambda st2, vs: k(st2, ctors[txt](self, vs)))
+        calls = self.cfg.get("calls", {})
+        h = calls.get(txt) or (calls.get(last) if len(p) == 1 else None)
+        if h is not None:
+            return self.ev_list(e[2], st, ctx, lambda st2, vs: h(self, vs, e[2], st2, ctx, k))
+        gc = self.cfg.get("gen_calls", {})
+        if len(p) == 1 and last in gc:
+            return self.ev_list(e[2], st, ctx, lambda st2, vs: self.gen_call(last, gc[last], vs, st2, ctx, k))
+        if len(p) == 1 and last in self.cfg.get("inline", ()):
+            params, _ret, body = fw_parse_free(self.cfg["src"], last)
+            return self.ev_list(e[2], st, ctx, lambda st2, vs: self.inline(last, params, body, vs, None, st2, ctx, k))
+        # associated functions of command structs: [module::]Struct::new(..)
+        if len(p) in (2, 3) and p[-2] in self.cfg.get("cmd_structs", {}):
+            module = self.cfg["cmd_structs"][p[-2]]
+            if len(p) == 3 and p[0] != module:
+                raise Rs2vError("%s: the struct %s lives in module %s" % (txt, p[-2], module))
+            recv, params, _ret, body = fw_parse_method(self.src_of(module), p[-2], last)
+            if recv is not None:
+                raise Rs2vError("%s has a receiver" % txt)
+            return self.ev_list(e[2], st, ctx, lambda st2, vs: self.inline(txt, params, body, vs, None, st2, ctx, k))
+        raise Rs2vError("call of %s" % txt)
+
+    def inline(self, name, params, body, args, self_v, st, ctx, k):
+        if len(params) != len(args):
+            raise Rs2vError("%s: %d arguments for %d parameters" % (name, len(args), len(params)))
+        if ctx.get("depth", 0) >= 12:
+            raise Rs2vError("%s: inlining too deep" % name)
+        caller_env = st.env
+        st2 = st.copy()
+        st2.env = {pn: a for (pn, _t), a in zip(params, args)}
+        if self_v is not None:
+            st2.env["self"] = self_v
+
+        def back(st3, v):
+            st4 = st3.copy()
+            st4.env = dict(caller_env)
+            return k(st4, v)
+        ictx = {"ret": back, "loop": None, "inline": name, "pure": ctx.get("pure"), "depth": ctx.get("depth", 0) + 1}
+        return self.block(body, st2, ictx, back)
+
+    def gen_call(self, name, gc, args, st, ctx, k):
+        if len(args) != len(gc["args"]):
+            raise Rs2vError("%s: %d arguments" % (name, len(args)))
+        terms = []
+        for a, want in zip(args, gc["args"]):
+            if want == "state":
+                if a.k != "tok" or a.what != "state":
+                    raise Rs2vError("%s: the state argument is %r" % (name, a))
+                continue
+            if self.type_of(a) != want:
+                raise Rs2vError("%s: an argument of type %s where %s is expected" % (name, self.type_of(a), want))
+            terms.append(self.to_term(a, st))
+        order = gc.get("order")
+        if order:
+            terms = [terms[i] for i in order]
+        mode = gc.get("state")
+        if mode is None:
+            return k(st, fw_term(gc["ret"], "(%s %s)" % (gc["coq"], " ".join(terms))))
+        s_in = self.state_term(st)
+        app = "(%s %s)" % (gc["coq"], " ".join(terms + [s_in]))
+        if mode == "ro":
+            return k(self.flush(st), fw_term(gc["ret"], app))
+        if gc["ret"] is None:
+            return k(self.rebase(st, app), FW_UNIT)
+        r, s2 = self.fresh("r"), self.fresh("s")
+        body = k(self.rebase(st, s2), fw_term(gc["ret"], r))
+        return "match %s with\n| (%s, %s) =>\n%s\nend" % (app[1:-1], r, s2, fw_ind(body))
+
+    # ---- method calls
+    def mcall(self, e, st, ctx, k):
+        recv, m, args = e[1], e[2], e[3]
+        r0 = self.strip(recv)
+        # mutation of a local String
+        if m == "push_str" and r0[0] == "path" and len(r0[1]) == 1 and r0[1][0] in st.env and len(args) == 1:
+            name = r0[1][0]
+
+            def pushed(st2, v):
+                cur = st2.env[name]
+                if cur.k != "term" or cur.ty != "str" or v.k != "term" or v.ty != "str":
+                    raise Rs2vError("push_str of %r on %r" % (v, cur))
+                st3 = st2.copy()
+                st3.env[name] = fw_term("str", "(%s ++ %s)" % (cur.term, v.term))
+                return k(st3, FW_UNIT)
+            return self.ev(args[0], st, ctx, pushed)
+        return self.ev(recv, st, ctx, lambda st2, rv: self.ev_list(args, st2, ctx, lambda st3, vs: self.method(rv, m, vs, st3, ctx, k)))
+
+    def method(self, rv, m, args, st, ctx, k):
+        if m in FW_IDENT_METHODS and not args:
+            if m == "to_string" and rv.k == "term" and rv.ty == "nat":
+                return k(st, fw_term("str", "(usize_str %s)" % rv.term))
+            return k(st, rv)
+        if m == "is_empty" and not args and rv.k == "term":
+            if rv.ty == "str":
+                return k(st, fw_term("bool", "(str_is_empty %s)" % rv.term))
+            if isinstance(rv.ty, tuple) and rv.ty[0] == "list":
+                return k(st, fw_term("bool", "(match %s with [] => true | _ :: _ => false end)" % rv.term))
+        if rv.k == "vec":
+            if m == "push" and len(args) == 1:
+                st2 = st.copy()
+                st2.heap[rv.addr].append(args[0])
+                return k(st2, FW_UNIT)
+            if m == "append" and len(args) == 1 and args[0].k == "vec":
+                st2 = st.copy()
+                st2.heap[rv.addr].extend(st2.heap[args[0].addr])
+                st2.heap[args[0].addr] = []
+                return k(st2, FW_UNIT)
+        if rv.k == "dict":
+            if m == "insert" and len(args) == 2:
+                key = args[0]
+                if key.k != "term" or not isinstance(key.lit, str):
+                    raise Rs2vError("insert with a key that is not a literal")
+                if args[1].k != "sv":
+                    raise Rs2vError("insert of %r" % (args[1],))
+                st2 = st.copy()
+                st2.heap[rv.addr][key.lit] = args[1]
+                return k(st2, FW_UNIT)
+            if m == "get" and len(args) == 1:
+                key = args[0]
+                if key.k != "term" or not isinstance(key.lit, str):
+                    raise Rs2vError("get with a key that is not a literal")
+                d = st.heap[rv.addr]
+                if key.lit in d:
+                    return k(st, FwV("opt", tag="Some", val=d[key.lit]))
+                return k(st, FwV("opt", tag="None"))
+        if rv.k == "tok" and rv.what.startswith("cell:"):
+            cell = rv.what[5:]
+            cc = self.cfg["cells"][cell]
+            if cc["kind"] == "stack" and m == "push" and len(args) == 1:
+                v = args[0]
+                if v.k != "sv" or v.val.k != "dict":
+                    raise Rs2vError("push of %r on the %s" % (v, cell))
+                if v.tag != cc["variant"]:
+                    raise Rs2vError("push of a StateValue::%s on the %s" % (v.tag, cell))
+                rec = self.unify(cell, st.heap[v.val.addr], st)
+                st2 = st.copy()
+                st2.cells[cell] = "(%s :: %s)" % (self.to_term(rec, st), st.cells[cell])
+                return k(st2, FW_UNIT)
+            if cc["kind"] == "stack" and m == "pop" and not args:
+                hd, tl = self.fresh("e"), self.fresh("rest")
+                st_some = st.copy()
+                st_some.cells[cell] = tl
+                frozen = self.image_of(cell, fw_term(("struct", cc["struct"]), hd))
+                a = self.thaw(frozen, st_some, lambda x: x)
+                some = k(st_some, FwV("opt", tag="Some", val=FwV("sv", tag=cc["variant"], val=FwV("dict", addr=a))))
+                none = k(st.copy(), FwV("opt", tag="None"))          # popping the empty Vec leaves it as it is
+                return "match %s with\n| %s :: %s =>\n%s\n| [] =>\n%s\nend" % (st.cells[cell], hd, tl, fw_ind(some), fw_ind(none))
+        if rv.k == "struct" and rv.name in self.cfg.get("cmd_structs", {}):
+            module = self.cfg["cmd_structs"][rv.name]
+            src = self.src_of(module)
+            try:
+                recv, params, _ret, body = fw_parse_method(src, rv.name, m, trait="Command")
+            except Rs2vError:
+                recv, params, _ret, body = fw_parse_method(src, rv.name, m)
+            if recv is None:
+                raise Rs2vError("%s::%s has no receiver" % (rv.name, m))
+            return self.inline("%s::%s" % (rv.name, m), params, body, args, rv, st, ctx, k)
+        mh = self.cfg.get("methods", {}).get(m)
+        if mh is not None:
+            return mh(self, rv, args, st, ctx, k)
+        raise Rs2vError("method %s on %r" % (m, rv))
+
+    # ---- slots of a map cell
+    def open_slot(self, cell, key, st, ctx, k):
+        """`get_sub_state(key, <cell>)`: case split on the lookup; k(st, dict value) in both arms"""
+        cc = self.cfg["cells"][cell]
+        if cc["kind"] != "map":
+            raise Rs2vError("%s is not a map" % cell)
+        if key.k != "term" or key.ty != "str":
+            raise Rs2vError("the key of %s is %r" % (cell, key))
+        for c2, k2, _a, _o in st.slots:
+            if c2 == cell:
+                raise Rs2vError("two entries of %s are open at the same time" % cell)
+        m = self.fresh("m")
+        st_some = st.copy()
+        frozen = self.image_of(cell, fw_term(("struct", cc["struct"]), m))
+        a1 = self.thaw(frozen, st_some, lambda x: x)
+        st_some.slots.append((cell, key.term, a1, m))
+        some = k(st_some, FwV("dict", addr=a1))
+        st_none = st.copy()
+        a2 = self.new_addr()
+        st_none.heap[a2] = {}
+        st_none.slots.append((cell, key.term, a2, None))
+        none = k(st_none, FwV("dict", addr=a2))
+        return "match %s with\n| Some %s =>\n%s\n| None =>\n%s\nend" % (cc["get"] % (key.term, st.cells[cell]), m, fw_ind(some), fw_ind(none))
+
+    # ---- a whole function
+    def function(self, params_env, body, state=True):
+        st = self.init_state(params_env) if state else FwSt(dict(params_env), {}, {}, None, [])
+
+        def ret(st2, v):
+            return self.cfg["result"](self, v, st2)
+        ctx = {"ret": ret, "loop": None}
+        return self.block(body, st, ctx, ret)
+
+
+# =================================================================================================
+# Function-command wave, builder B27 (client: lib/gen/flowfn_gen.py — duckscript_sdk/src/sdk/std/flowcontrol/function/mod.rs:
+# FunctionCommand::run, run_call, EndFunctionCommand::run, ReturnCommand::run, push_to_call_stack, pop_from_call_stack and the
+# helpers store_fn_info_in_state / get_fn_info_from_state).  Purely additive: nothing above this line is changed.  The parser
+# extends PVar, the executor extends FnVar (continuation passing, decision trees, path-sensitive state cells).
+#
+#   strip_attributes / PFlowfn / parse_flowfn_fn / parse_flowfn_method
+#       `#[..]` attributes are removed before lexing; ITEMS inside a block (`struct N { .. }`, `impl T for N { fn .. }`, as
+#       FunctionCommand::run declares the call command it registers) become ("item", ..) statements; `fn run` of an impl
+#       block is the one at brace depth 0 of that block (a nested impl may have its own `run`); otherwise the PVar grammar
+#   FnFlowfn   executor on top of FnVar:
+#     * STRUCT values: a struct literal `S { f: e, g }` is cfg["structs"][S](fn, [(field, value)], env) -> CmdV, usually a
+#       value of type ("struct", S) with one CmdV per field (items); `x.f` reads that field (a struct that only has a term is
+#       projected by cfg["struct_proj"]);
+#     * every `let mut` local is a state cell (integers included: `i = i + 1` is an assignment to the cell); an integer
+#       literal bound by `let mut` without a type is cfg["int_default"];
+#     * `for x in LIST { body }` whose body changes SEVERAL cells is a `fold_left` over the tuple of the changed cells (in
+#       the order the cells were created), the rest of the function runs under `match <fold> with (a, b) => ..`; a body that
+#       changes one cell is the fold of that cell;
+#     * total arithmetic cfg["arith_total"] ({(ty, op): fmt}: usize `+` on nat, no overflow arm) next to FnCmd's checked one;
+#     * PATH REFINEMENT: after `match t with Some x => A | None => B` on a term t (and `if t then A else B`) the same term is
+#       known inside A / B — a second test of it is decided here, not emitted again;
+#     * ITEMS declared in a block are collected in env["%items"] (struct handlers can inspect them);
+#     * helper functions can be run PROGRAMMATICALLY (run_helper) under an interception table fn.icpt that configured
+#       handlers consult: this is how a serialiser is executed to find out what the string-keyed map of a typed record
+#       looks like (and a deserialiser to find out which record a map denotes) — see lib/gen/flowfn_gen.py;
+#     * calls: cfg["helpers"] (inlined, with the file's statics in scope: cfg["statics"]), cfg["cps_paths"], cfg["paths"],
+#       then cfg["path_fallback"](fn, path string, [CmdV], expect) -> CmdV or None.
+#   Everything not understood raises Rs2vError.
+def strip_attributes(src):
+    """remove `#[..]` / `#![..]` attributes (comments and string literals respected)"""
+    out, i, n = [], 0, len(src)
+    str_re = re.compile(r'"(?:\\.|[^"\\])*"', re.S)
+    while i < n:
+        if src.startswith("//", i):
+            j = src.find("\n", i)
+            j = n if j < 0 else j
+            out.append(src[i:j])
+            i = j
+            continue
+        if src.startswith("/*", i):
+            j = src.find("*/", i)
+            if j < 0:
+                raise Rs2vError("unterminated comment")
+            out.append(src[i:j + 2])
+            i = j + 2
+            continue
+        c = src[i]
+        if c == '"':
+            mm = str_re.match(src, i)
+            if not mm:
+                raise Rs2vError("unterminated string")
+            out.append(mm.group(0))
+            i = mm.end()
+            continue
+        if c == "#" and (src.startswith("#[", i) or src.startswith("#![", i)):
+            j, depth = src.index("[", i), 0
+            while j < n:
+                if src[j] == "[":
+                    depth += 1
+                elif src[j] == "]":
+                    depth -= 1
+                    if depth == 0:
+                        break
+                j += 1
+            if j >= n:
+                raise Rs2vError("unterminated attribute")
+            i = j + 1
+            continue
+        out.append(c)
+        i += 1
+    return "".join(out)
+
+
+class PFlowfn(PVar):
+    def item_ahead(self):
+        """the index of `struct` / `impl` when an item starts here (after an optional visibility), else None"""
+        j = self.i
+        if self.t[j] == ("id", "pub"):
+            j += 1
+            if self.t[j] == ("op", "("):
+                while self.t[j] != ("op", ")"):
+                    if self.t[j][0] == "eof":
+                        return None
+                    j += 1
+                j += 1
+        if self.t[j] in (("id", "struct"), ("id", "impl")) and self.t[j + 1][0] == "id":
+            return j
+        return None
+
+    def stmt(self):
+        j = self.item_ahead()
+        if j is None:
+            return super().stmt()
+        self.i = j
+        if self.opt("id", "struct"):
+            name = self.eat("id")
+            self.eat("op", "{")
+            fields = []
+            while not self.at("op", "}"):
+                if self.opt("id", "pub") and self.opt("op", "("):
+                    while not self.opt("op", ")"):
+                        self.i += 1
+                fname = self.eat("id")
+                self.eat("op", ":")
+                fields.append((fname, self.type_text()))
+                if not self.opt("op", ","):
+                    break
+            self.eat("op", "}")
+            return ("item", "struct", name, fields)
+        self.eat("id", "impl")
+        first = self.eat("id")
+        trait, name = None, first
+        if self.opt("id", "for"):
+            trait, name = first, self.eat("id")
+        self.eat("op", "{")
+        fns = {}
+        saved = (self.receiver, self.ret_type)
+        while not self.at("op", "}"):
+            self.receiver, self.ret_type = None, None
+            fname, params, body = self.fn()
+            if fname in fns:
+                raise Rs2vError("impl %s: two fn %s" % (name, fname))
+            fns[fname] = (self.receiver, params, self.ret_type, body)
+        self.eat("op", "}")
+        self.receiver, self.ret_type = saved
+        return ("item", "impl", trait, name, fns)
+
+
+def parse_flowfn_fn(src, name):
+    """a free function of the file (column 0), PFlowfn grammar -> ([(param, type text)], return type text, body)"""
+    src = strip_attributes(src)
+    ms = list(re.finditer(r"^(?:pub(?:\([a-z]+\))?\s+)?fn\s+%s\s*\(" % re.escape(name), src, re.M))
+    if len(ms) != 1:
+        raise Rs2vError("fn %s: %d definitions" % (name, len(ms)))
+    p = PFlowfn(lex(src[ms[0].start():], stop_after_item=True))
+    _n, params, body = p.fn()
+    if p.receiver is not None:
+        raise Rs2vError("fn %s has a receiver" % name)
+    return params, p.ret_type, body
+
+
+def top_level_fns(body, name):
+    """start offsets of `fn name(` at brace depth 0 of the text (comments and string literals respected)"""
+    out, i, n, depth = [], 0, len(body), 0
+    str_re = re.compile(r'"(?:\\.|[^"\\])*"', re.S)
+    chr_re = re.compile(r"'(?:\\.|[^'\\])'")
+    fn_re = re.compile(r"fn\s+%s\s*\(" % re.escape(name))
+    while i < n:
+        if body.startswith("//", i):
+            j = body.find("\n", i)
+            i = n if j < 0 else j
+            continue
+        if body.startswith("/*", i):
+            j = body.find("*/", i)
+            if j < 0:
+                raise Rs2vError("unterminated comment")
+            i = j + 2
+            continue
+        c = body[i]
+        if c == '"':
+            mm = str_re.match(body, i)
+            if not mm:
+                raise Rs2vError("unterminated string")
+            i = mm.end()
+            continue
+        if c == "'":
+            mm = chr_re.match(body, i)
+            if mm:
+                i = mm.end()
+                continue
+        if c == "{":
+            depth += 1
+        elif c == "}":
+            depth -= 1
+        elif c == "f" and depth == 0 and (i == 0 or not (body[i - 1].isalnum() or body[i - 1] == "_")) and fn_re.match(body, i):
+            out.append(i)
+        i += 1
+    return out
+
+
+def parse_flowfn_method(src, trait, type_name, name):
+    """`fn name` (at depth 0) of `impl trait for type_name { .. }` (column 0), PFlowfn grammar
+    -> (receiver, [(param, type text)], return type text, body)"""
+    src = strip_attributes(src)
+    ms = list(re.finditer(r"^impl\s+%s\s+for\s+%s\s*\{" % (re.escape(trait), re.escape(type_name)), src, re.M))
+    if len(ms) != 1:
+        raise Rs2vError("impl %s for %s: %d blocks" % (trait, type_name, len(ms)))
+    body = balanced_block(src, ms[0].end() - 1)
+    fs = top_level_fns(body, name)
+    if len(fs) != 1:
+        raise Rs2vError("fn %s: %d definitions in impl %s for %s" % (name, len(fs), trait, type_name))
+    p = PFlowfn(lex(body[fs[0]:], stop_after_item=True))
+    _n, params, blk = p.fn()
+    return p.receiver, params, p.ret_type, blk
+
+
+class FfV(CmdV):
+    """a CmdV with free attributes (provenance of a map, dirty flag ..)"""
+    pass
+
+
+class FnFlowfn(FnVar):
+    """cfg keys in addition to FnVar's:
+      structs        {struct name: f(fn, [(field, CmdV)], env) -> CmdV}
+      struct_proj    {struct name: {field: (ty, fmt % term)}}        fields of a struct value that only has a term
+      int_default    ty of `let mut i = <integer literal>` without a type annotation
+      arith_total    {(ty, op): fmt % (a, b)}
+      statics        {name: CmdV}                                    in scope of every helper
+      path_fallback  f(fn, path string, [CmdV], expect) -> CmdV or None
+      all_fns        {name: ([(param, type text)], return type text, body)}   what run_helper can run
+      consts         {rust path string: CmdV}                        constants of other modules (`end::END_COMMAND_NAME`)
+    """
+
+    def __init__(self, cfg):
+        super().__init__(cfg)
+        self.refine = {}
+        self.icpt = {}
+
+    # ---- path refinement, interception
+    def guarded(self, f):
+        saved, ref = self.st, self.refine
+        try:
+            return f()
+        finally:
+            self.st, self.refine = saved, ref
+
+    def with_refine(self, key, val, thunk):
+        old = self.refine
+        self.refine = dict(old)
+        self.refine[key] = val
+        try:
+            return thunk()
+        finally:
+            self.refine = old
+
+    def run_helper(self, name, argvals, k, icpt=None):
+        """inline the function `name` of cfg["all_fns"] on the given values; under the interception table icpt when given
+        (the continuation runs under the table of the caller again)"""
+        params, ret_text, body = self.cfg["all_fns"][name]
+        if len(params) != len(argvals):
+            raise Rs2vError("call of %s with %d arguments" % (name, len(argvals)))
+        ret = self.ty_of_text(ret_text)
+        henv = dict(self.cfg.get("statics", {}))
+        henv["%decl"], henv["%frame"] = {}, 0
+        for (pn, _pt), v in zip(params, argvals):
+            henv[pn] = v
+        outer = self.icpt
+
+        def k2(v):
+            inner = self.icpt
+            self.icpt = outer
+            try:
+                return k(v)
+            finally:
+                self.icpt = inner
+        if icpt is not None:
+            self.icpt = dict(icpt)
+            self.icpt["%outer"] = outer
+        try:
+            return self.block(body, henv, k2, {"ret": k2, "ret_type": ret}, ret)
+        finally:
+            self.icpt = outer
+
+    def leave_icpt(self, thunk):
+        """run thunk under the interception table of the caller of the running intercepted helper"""
+        inner = self.icpt
+        self.icpt = inner.get("%outer", {})
+        try:
+            return thunk()
+        finally:
+            self.icpt = inner
+
+    # ---- statements
+    def stmts1(self, ss, tail, env, k, ctx, expect):
+        if not ss:
+            return FnVar.stmts1(self, ss, tail, env, k, ctx, expect)
+        s, rest = ss[0], ss[1:]
+        kind = s[0]
+        if kind == "item":
+            env2 = dict(env)
+            items = dict(env.get("%items", {}))
+            items[(s[1],) + ((s[2],) if s[1] == "struct" else (s[2], s[3]))] = s
+            env2["%items"] = items
+            return self.stmts(rest, tail, env2, k, ctx, expect)
+        if kind == "let" and len(s) > 4 and s[4]:
+            name, e = s[1], s[2]
+            ty = self.ty_of_text(s[3])
+
+            def k_let(v):
+                v = self.cur(v)
+                if ty is not None:
+                    v = self.ascribe(v, ty)
+                elif v.ty == "intlit":
+                    v = self.literal(v, self.cfg["int_default"])
+                env2 = dict(env)
+                if self.cfg["cell_types"](v.ty):
+                    self.declare(env2, name, CmdV(("ref", self.new_cell(name, v))), True)
+                else:
+                    self.declare(env2, name, v, True)
+                return self.stmts(rest, tail, env2, k, ctx, expect)
+            return self.ex(e, env, k_let, ctx, ty)
+        if kind == "assign":
+            target, op, rhs = s[1], s[2], s[3]
+            if op != "=" or target[0] != "path" or len(target[1]) != 1 or target[1][0] not in env:
+                raise Rs2vError("assignment other than `local = e`")
+            cell = self.cell_of(env[target[1][0]])
+            if cell is None:
+                raise Rs2vError("assignment to %s, which is not a `let mut` local" % target[1][0])
+            cty = self.cur(env[target[1][0]]).ty
+
+            def k_rhs(v):
+                v = self.cur(v)
+                if v.ty == "intlit":
+                    v = self.literal(v, cty)
+                if v.ty != cty or v.term is None:
+                    raise Rs2vError("assignment of a value of type %r to a local of type %r" % (v.ty, cty))
+                self.write(cell, v)
+                return self.stmts(rest, tail, env, k, ctx, expect)
+            return self.ex(rhs, env, k_rhs, ctx, cty)
+        if kind == "for":
+            return self.for_multi(s, env, ctx, lambda: self.stmts(rest, tail, env, k, ctx, expect))
+        return FnVar.stmts1(self, ss, tail, env, k, ctx, expect)
+
+    def for_multi(self, s, env, ctx, k_rest):
+        """for x in LIST { body }: the cells the body changes become the accumulator of a fold_left"""
+        _, pat, it, body = s
+        if self.in_fold:
+            raise Rs2vError("nested loop")
+        if isinstance(pat, tuple):
+            raise Rs2vError("tuple pattern in a for loop")
+        item_ty, lterm = self.iterable(self.pure(it, env, ctx))
+        x = self.fresh(pat)
+        env_b = self.enter(env)
+        self.declare(env_b, pat, CmdV(item_ty, x))
+
+        def no_return(_v):
+            raise Rs2vError("return inside a loop")
+        ctx_b = {"ret": no_return, "ret_type": None}
+        saved, saved_ref = self.st, self.refine
+        eff = self.effects
+
+        def run(cells, kleaf):
+            self.st, self.refine = cells, {}
+            self.in_fold += 1
+            try:
+                return self.block(body, env_b, kleaf, ctx_b, None)
+            finally:
+                self.in_fold -= 1
+                self.st, self.refine = saved, saved_ref
+        order = [c for c, v in saved.items() if v.term is not None]
+        accs = {c: self.fresh("acc") for c in order}
+        changed = set()
+
+        def k1(v):
+            if v.ty not in ("unit", "discard"):
+                raise Rs2vError("loop body with a value of type %r" % (v.ty,))
+            for c, cv in saved.items():
+                if c not in accs:
+                    if self.st.get(c) is not cv:
+                        raise Rs2vError("loop body: %s changes" % c)
+                elif c not in self.st or self.st[c].term != accs[c]:
+                    if c not in self.st or self.st[c].ty != saved[c].ty or self.st[c].term is None:
+                        raise Rs2vError("loop body: %s changes its type" % c)
+                    changed.add(c)
+            return ""
+        names1 = dict(self.names)
+        run({c: (CmdV(v.ty, accs[c]) if c in accs else v) for c, v in saved.items()}, k1)
+        self.names = names1
+        chg = [c for c in order if c in changed]
+        if not chg:
+            raise Rs2vError("a loop whose body changes nothing")
+        cells = dict(saved)
+        for c in chg:
+            cells[c] = CmdV(saved[c].ty, accs[c])
+
+        def k2(v):
+            for d, dv in saved.items():
+                if d not in chg and self.st.get(d) is not dv:
+                    raise Rs2vError("loop body: inconsistent state change")
+            ts = [self.st[c].term for c in chg]
+            return ts[0] if len(ts) == 1 else "(%s)" % ", ".join(ts)
+        body_term = run(cells, k2)
+        self.effects = eff
+        ct = self.cfg["coq_type"]
+        xty = ct(item_ty)
+        if len(chg) == 1:
+            c = chg[0]
+            fold = "(fold_left (fun (%s : %s) (%s : %s) =>\n%s) %s %s)" % (
+                accs[c], ct(saved[c].ty), x, xty, cmd_indent(body_term, 4), lterm, saved[c].term)
+            self.write(c, CmdV(saved[c].ty, fold))
+            return k_rest()
+        st = self.fresh("st")
+        sty = " * ".join(ct(saved[c].ty) for c in chg)
+        fold = "fold_left (fun (%s : %s) (%s : %s) => let '(%s) := %s in\n%s) %s (%s)" % (
+            st, sty, x, xty, ", ".join(accs[c] for c in chg), st, cmd_indent(body_term, 4), lterm,
+            ", ".join(saved[c].term for c in chg))
+        outs = [self.fresh("r") for _ in chg]
+        keep = self.st
+        for c, o in zip(chg, outs):
+            self.write(c, CmdV(saved[c].ty, o))
+        try:
+            rest = k_rest()
+        finally:
+            self.st = keep
+        return "match %s with\n| (%s) =>\n%s\nend" % (fold, ", ".join(outs), cmd_indent(rest, 4))
+
+    # ---- expressions
+    def ex1(self, e, env, k, ctx, expect):
+        kind = e[0]
+        if kind == "struct":
+            name = e[1][-1]
+            h = self.cfg.get("structs", {}).get(name)
+            if h is None:
+                raise Rs2vError("struct literal %s" % "::".join(e[1]))
+            fnames = [f for f, _ in e[2]]
+            return self.seq([x for _, x in e[2]], env, lambda vs: k(h(self, list(zip(fnames, [self.cur(v) for v in vs])), env)), ctx)
+        if kind == "field":
+            if e[1][0] == "path" and len(e[1][1]) == 1 and (e[1][1][0], e[2]) in self.cfg["fields"]:
+                return k(self.cfg["fields"][(e[1][1][0], e[2])])
+
+            def k_base(b):
+                b = self.cur(b)
+                if isinstance(b.ty, tuple) and b.ty[0] == "struct":
+                    if b.items is not None:
+                        if e[2] not in b.items:
+                            raise Rs2vError("struct %s has no field %s" % (b.ty[1], e[2]))
+                        return k(b.items[e[2]])
+                    pr = self.cfg.get("struct_proj", {}).get(b.ty[1], {}).get(e[2])
+                    if pr is not None and b.term is not None:
+                        return k(CmdV(pr[0], pr[1] % b.term))
+                raise Rs2vError("field .%s of a value of type %r" % (e[2], b.ty))
+            return self.ex(e[1], env, k_base, ctx, None)
+        if kind == "array" and e[1]:
+            return self.seq(e[1], env, lambda vs: k(self.list_of([self.cur(v) for v in vs])), ctx)
+        return FnVar.ex1(self, e, env, k, ctx, expect)
+
+    def list_of(self, vs):
+        tys = {v.ty for v in vs}
+        if len(tys) != 1 or any(v.term is None for v in vs):
+            raise Rs2vError("list literal of %r" % (sorted(map(repr, tys)),))
+        return CmdV(("list", vs[0].ty), "[%s]" % "; ".join(v.term for v in vs))
+
+    def bin(self, e, env, k, ctx):
+        op = e[1]
+        if op in ("&&", "||", ".."):
+            return FnVar.bin(self, e, env, k, ctx)
+
+        def k_ops(vs):
+            a, b = self.cur(vs[0]), self.cur(vs[1])
+            if op in ("+", "-", "*"):
+                a2, b2 = self.unify(a, b)
+                fm = self.cfg.get("arith_total", {}).get((a2.ty, op))
+                if fm is not None:
+                    if a2.term is None or b2.term is None:
+                        raise Rs2vError("%s on a value without a term" % op)
+                    return k(CmdV(a2.ty, fm % (a2.term, b2.term)))
+            return FnCmd.bin(self, ("bin", op, ("%value", a), ("%value", b)), env, k, ctx)
+        return self.seq([e[2], e[3]], env, k_ops, ctx)
+
+    def if_(self, e, env, k, ctx, expect):
+        def k_c(c):
+            c = self.cur(c)
+            if c.ty != "bool":
+                raise Rs2vError("if on %r" % (c.ty,))
+            known = c.known if isinstance(c.known, bool) else self.refine.get(c.term) if c.term is not None else None
+            if isinstance(known, bool):
+                return self.block(e[2] if known else e[3], env, k, ctx, expect)
+            a = self.with_refine(c.term, True, lambda: self.block(e[2], env, k, ctx, expect))
+            b = self.with_refine(c.term, False, lambda: self.block(e[3], env, k, ctx, expect))
+            return self.ite(c.term, a, b)
+        return self.ex(e[1], env, k_c, ctx, "bool")
+
+    def match(self, e, env, k, ctx, expect):
+        arms = e[2]
+        hint = self.parse_hint(e[1], arms, expect)
+
+        def k_s(v):
+            v = self.cur(v)
+            t = v.ty
+            if isinstance(t, tuple) and t[0] == "opt" and v.known is None and v.term is not None:
+                r = self.refine.get(v.term)
+                if r is not None:
+                    v = CmdV(t, v.term, known=r)
+                else:
+                    gname, _ = self.arm_for(arms, "Some")
+                    x = self.fresh(gname if isinstance(gname, str) else "x")
+                    payload = self.payload_of(t[1], x)
+                    some_v, none_v = CmdV(t, v.term, known=("Some", payload)), CmdV(t, v.term, known=("None",))
+                    a = self.with_refine(v.term, ("Some", payload),
+                                         lambda: FnVar.match(self, ("match", ("%value", some_v), arms), env, k, ctx, expect))
+                    b = self.with_refine(v.term, ("None",),
+                                         lambda: FnVar.match(self, ("match", ("%value", none_v), arms), env, k, ctx, expect))
+                    return self.match2(v.term, "Some %s" % x, a, "None", b)
+            return FnVar.match(self, ("match", ("%value", v), arms), env, k, ctx, expect)
+        return self.ex(e[1], env, k_s, ctx, hint)
+
+    def payload_of(self, ty, x):
+        return CmdV(ty, x)
+
+    def path(self, e, env, k, ctx, expect):
+        p = "::".join(e[1])
+        if len(e[1]) > 1 and p in self.cfg.get("consts", {}):
+            return k(self.cfg["consts"][p])
+        return FnVar.path(self, e, env, k, ctx, expect)
+
+    def call(self, e, env, k, ctx, expect):
+        if e[1][0] != "path":
+            raise Rs2vError("call of a computed function")
+        p = "::".join(e[1][1])
+        if p in self.cfg["helpers"]:
+            return self.seq(e[2], env, lambda vs: self.run_helper(p, vs, k), ctx)
+        if p in ("Some", "Ok", "Err") or p in self.cfg.get("cps_paths", {}) or p in self.cfg["ctors"] or p in self.cfg["paths"]:
+            return FnVar.call(self, e, env, k, ctx, expect)
+        fb = self.cfg.get("path_fallback")
+        if fb is not None:
+            def k_args(vs):
+                v = fb(self, p, vs, expect)
+                if v is None:
+                    raise Rs2vError("call of %s" % p)
+                return k(v)
+            return self.seq(e[2], env, k_args, ctx)
+        raise Rs2vError("call of %s" % p)
+
+
+# =================================================================================================
+# Typed-state wave, builder B24 (first client: lib/gen/flowif_gen.py — the if / elseif / else / end_if commands of
+# duckscript_sdk/src/sdk/std/flowcontrol/ifelse/mod.rs).  Purely additive: nothing above this line is changed.  The parser
+# extends PV (the `?` operator, closures) with receivers and typed parameters; the executor FnTs is a NEW class
+# (continuation passing: the result is a decision tree whose leaves are function results).
+#
+#   PTs / parse_fn_ts / parse_trait_fn_ts / parse_impl_fn_ts
+#       PV grammar + `fn f(&self, p: T) -> R` (receiver, parameter and return types kept as text) + `loop { .. }` (P2)
+#   ts_read_struct      `struct S { [pub[(crate)]] f: T, .. }` -> [(field, type text)]
+#   ts_check_serde      the check the typed view rests on: `serialize_S(&S, &mut HashMap<String, StateValue>)` and
+#       `deserialize_S(&mut HashMap<..>) -> Option<S>` are mutually inverse FIELD BY FIELD — every key the serialiser writes is
+#       read back by the deserialiser from the same key, under the same StateValue variant (scalars, a List of one scalar
+#       variant, a SubState written / read by another checked pair), into the same struct field, and the struct literal the
+#       deserialiser returns names exactly the declared fields.  Anything else is Rs2vError.
+#   FnTs   symbolic executor for functions that keep STRUCTS SERIALISED in the string-keyed runtime state
+#       (`state: &mut HashMap<String, StateValue>`) of which the hand model keeps typed records, typed association lists and
+#       typed stacks.  cfg["layout"] describes the typed view: which nested sub-state holds what.
+#     * `&mut HashMap` values are PLACES (paths into the state): get_core_sub_state_for_command / get_sub_state / get_list
+#       (cfg["place_fns"]) walk the layout; a key that is not a literal is only allowed where the layout has a dynamic map;
+#     * on a dynamic map of serialised S:  deserialize_S(&mut slot) is a lookup in the association list, serialize_S(&v, slot) an
+#       insert (spelling given by the layout); on a dynamic map of one scalar variant: insert(key, StateValue::V(x));
+#     * on a list of serialised S: push(StateValue::SubState(m)) where m is a local `HashMap::new()` filled by serialize_S is
+#       a push of the record; pop() gives a value that `match`es as StateValue::SubState(m) and deserialize_S(&mut m) as
+#       Some(record) — the other arms are dead by the typed-view invariant (every entry was written by the push rule);
+#     * every use of a (de)serialiser requires that ts_check_serde accepted the pair;
+#     * callees: other functions translated in the same unit (cfg["fns"]: the call is emitted, a callee that returns a value
+#       and a state is bound by a `match .. with (v, st) =>`; one that can run out of fuel by an `option` match), configured
+#       callees (cfg["calls"]: handlers that CHECK the actual arguments and give the outcome shapes), command structs whose
+#       `name()` / `aliases()` / `new()` are executed from their own source (cfg["modules"]);
+#     * control flow copies the continuation into the branches; `xs.is_empty()` refines xs into `[]` / `x :: r` (a later
+#       `xs[0]` needs no panic arm); `v[i]` otherwise is `nth_error` with the configured panic leaf; `loop { .. return e; .. }`
+#       as the last statement becomes `<name>_body` (a step function: LCont state / LRet result) driven by explicit fuel
+#       (cfg fuel term; out of fuel = None);
+#     * block scoping with shadowing (cells), mutation of locals through push / append / push_str.
+#   Everything not understood raises Rs2vError; nothing is guessed.
+class PTs(PV):
+    receiver = None
+    ret_type = None
+    type_text = PCmd.type_text
+    fn = PCmd.fn
+    # `loop`, `let (a, b)`, struct literals: P2 (inherited through PQ)
+
+
+def _ts_find(src, pattern, what):
+    ms = list(re.finditer(pattern, src, re.M))
+    if len(ms) != 1:
+        raise Rs2vError("%s: %d definitions" % (what, len(ms)))
+    return ms[0]
+
+
+def _ts_depth(text, pos):
+    """brace depth of text[pos] (comments, string and char literals respected)"""
+    i, depth = 0, 0
+    str_re = re.compile(r'"(?:\\.|[^"\\])*"', re.S)
+    chr_re = re.compile(r"'(?:\\.|[^'\\])'")
+    while i < pos:
+        c = text[i]
+        if text.startswith("//", i):
+            j = text.find("\n", i)
+            i = len(text) if j < 0 else j
+            continue
+        if text.startswith("/*", i):
+            j = text.find("*/", i)
+            i = len(text) if j < 0 else j + 2
+            continue
+        if c == '"':
+            mm = str_re.match(text, i)
+            if mm:
+                i = mm.end()
+                continue
+        if c == "'":
+            mm = chr_re.match(text, i)
+            if mm:
+                i = mm.end()
+                continue
+        if c == "{":
+            depth += 1
+        elif c == "}":
+            depth -= 1
+        i += 1
+    return depth
+
+
+def parse_fn_ts(src, name):
+    """a free function (column 0) -> ([(param, type text)], return type text, body)"""
+    m = _ts_find(src, r"^(?:pub(?:\([a-z]+\))?\s+)?fn\s+%s\s*\(" % re.escape(name), "fn %s" % name)
+    p = PTs(lex_q(src[m.start():], stop_after_item=True))
+    _n, params, body = p.fn()
+    if p.receiver is not None:
+        raise Rs2vError("fn %s has a receiver" % name)
+    return params, p.ret_type, body
+
+
+def _ts_impl_fn(src, header_re, what, name):
+    m = _ts_find(src, header_re, what)
+    body = balanced_block(src, m.end() - 1)
+    fs = [f for f in re.finditer(r"\bfn\s+%s\s*\(" % re.escape(name), body) if _ts_depth(body, f.start()) == 0]
+    if len(fs) > 1:
+        raise Rs2vError("fn %s: %d definitions in %s" % (name, len(fs), what))
+    if not fs:
+        return None
+    p = PTs(lex_q(body[fs[0].start():], stop_after_item=True))
+    _n, params, blk = p.fn()
+    return p.receiver, params, p.ret_type, blk
+
+
+def parse_trait_fn_ts(src, trait, type_name, name):
+    """`fn name` of `impl trait for type_name` -> (receiver, params, ret type text, body) or None when the impl has none"""
+    return _ts_impl_fn(src, r"^\s*impl\s+%s\s+for\s+%s\s*\{" % (re.escape(trait), re.escape(type_name)),
+                       "impl %s for %s" % (trait, type_name), name)
+
+
+def parse_impl_fn_ts(src, type_name, name):
+    """`fn name` of the inherent `impl type_name`"""
+    return _ts_impl_fn(src, r"^\s*impl\s+%s\s*\{" % re.escape(type_name), "impl %s" % type_name, name)
+
+
+def ts_read_struct(src, name):
+    m = _ts_find(src, r"^(?:pub(?:\([a-z]+\))?\s+)?struct\s+%s\s*\{" % re.escape(name), "struct %s" % name)
+    body = re.sub(r"//[^\n]*", "", balanced_block(src, m.end() - 1))
+    out = []
+    for part in body.split(","):
+        part = part.strip()
+        if not part:
+            continue
+        mm = re.fullmatch(r"(?:pub(?:\([a-z]+\))?\s+)?(\w+)\s*:\s*(.+)", part, re.S)
+        if not mm:
+            raise Rs2vError("struct %s: field %r not understood" % (name, part))
+        out.append((mm.group(1), "".join(mm.group(2).split())))
+    return out
+
+
+# ---- the serialise / deserialise check
+def _ts_unwrap(e):
+    """strip `&`, `&mut`, `.clone()`, `.to_string()`, `.to_owned()`"""
+    while True:
+        if e[0] in ("ref", "refmut"):
+            e = e[1]
+        elif e[0] == "mcall" and e[2] in ("clone", "to_string", "to_owned") and not e[3]:
+            e = e[1]
+        else:
+            return e
+
+
+def _ts_lit(e, what):
+    e = _ts_unwrap(e)
+    if e[0] != "str":
+        raise Rs2vError("%s: the key is not a string literal" % what)
+    return e[1]
+
+
+def _ts_sv_ctor(e):
+    """StateValue::V(x) -> (V, x)"""
+    if e[0] == "call" and e[1][0] == "path" and len(e[1][1]) == 2 and e[1][1][0] == "StateValue" and len(e[2]) == 1:
+        return e[1][1][1], e[2][0]
+    return None
+
+
+def _ts_field_of(e, var):
+    e = _ts_unwrap(e)
+    if e[0] == "field" and _ts_unwrap(e[1]) == ("path", [var]):
+        return e[2]
+    return None
+
+
+def _ts_ser_entries(params, body, what, serde_names):
+    """[(key, shape, field)] written by a serialiser; shape: ("scalar", V) | ("list", V) | ("sub", S)"""
+    if len(params) != 2 or body[2] is not None:
+        raise Rs2vError("%s: not `fn(&S, &mut HashMap)` with a statement body" % what)
+    xv, mv = params[0][0], params[1][0]
+    out, pend = [], {}
+    stmts = list(body[1])
+    i = 0
+    while i < len(stmts):
+        s = stmts[i]
+        if s[0] == "let" and _ts_unwrap(s[2]) == ("macro", "vec", []):
+            # let mut l = vec![]; for x in &X.f { l.push(StateValue::V(*x)); }
+            if i + 1 >= len(stmts) or stmts[i + 1][0] != "for":
+                raise Rs2vError("%s: `let %s = vec![]` is not followed by the loop that fills it" % (what, s[1]))
+            f = stmts[i + 1]
+            fld = _ts_field_of(f[2], xv)
+            bl = f[3]
+            if fld is None or bl[2] is not None or len(bl[1]) != 1 or bl[1][0][0] != "expr":
+                raise Rs2vError("%s: the loop that fills %s has an unexpected shape" % (what, s[1]))
+            c = bl[1][0][1]
+            sv = _ts_sv_ctor(c[3][0]) if (c[0] == "mcall" and c[1] == ("path", [s[1]]) and c[2] == "push" and len(c[3]) == 1) else None
+            if sv is None or _ts_unwrap(sv[1]) != ("path", [f[1]]):
+                raise Rs2vError("%s: the loop that fills %s does not push StateValue::V(item)" % (what, s[1]))
+            pend[s[1]] = (("list", sv[0]), fld)
+            i += 2
+            continue
+        if s[0] == "let" and s[2] == ("call", ("path", ["HashMap", "new"]), []):
+            # let mut m = HashMap::new(); serialize_Y(&X.f, &mut m);
+            if i + 1 >= len(stmts) or stmts[i + 1][0] != "expr":
+                raise Rs2vError("%s: `let %s = HashMap::new()` is not followed by a serialiser call" % (what, s[1]))
+            c = stmts[i + 1][1]
+            ok = c[0] == "call" and c[1][0] == "path" and len(c[1][1]) == 1 and len(c[2]) == 2 and _ts_unwrap(c[2][1]) == ("path", [s[1]])
+            fld = _ts_field_of(c[2][0], xv) if ok else None
+            sname = [k for k, v in serde_names.items() if ok and v["ser"] == c[1][1][0]]
+            if fld is None or not sname:
+                raise Rs2vError("%s: the nested serialiser call for %s has an unexpected shape" % (what, s[1]))
+            pend[s[1]] = (("sub", sname[0]), fld)
+            i += 2
+            continue
+        if s[0] == "expr" and s[1][0] == "mcall" and s[1][1] == ("path", [mv]) and s[1][2] == "insert" and len(s[1][3]) == 2:
+            key = _ts_lit(s[1][3][0], what)
+            sv = _ts_sv_ctor(s[1][3][1])
+            if sv is None:
+                raise Rs2vError("%s: the value stored under %r is not StateValue::<variant>(..)" % (what, key))
+            inner = _ts_unwrap(sv[1])
+            if inner[0] == "path" and len(inner[1]) == 1 and inner[1][0] in pend:
+                shape, fld = pend.pop(inner[1][0])
+                if (shape[0] == "list") != (sv[0] == "List") or (shape[0] == "sub") != (sv[0] == "SubState"):
+                    raise Rs2vError("%s: %r is stored as StateValue::%s" % (what, key, sv[0]))
+            else:
+                fld = _ts_field_of(sv[1], xv)
+                if fld is None or sv[0] in ("List", "SubState", "Set", "Any"):
+                    raise Rs2vError("%s: the value stored under %r is not a field of the struct" % (what, key))
+                shape = ("scalar", sv[0])
+            out.append((key, shape, fld))
+            i += 1
+            continue
+        raise Rs2vError("%s: statement not understood: %r" % (what, s[0]))
+    if pend:
+        raise Rs2vError("%s: %s built but never stored" % (what, ", ".join(sorted(pend))))
+    return out
+
+
+def _ts_is_ret_none(e):
+    return e == ("block", [("return", ("path", ["None"]))], None)
+
+
+def _ts_get_match(e, mv, what):
+    """match MAP.get("k") { Some(v) => INNER, None => return None } -> (key, v, INNER)"""
+    if not (e[0] == "match" and e[1][0] == "mcall" and _ts_unwrap(e[1][1]) == ("path", [mv]) and e[1][2] == "get"
+            and len(e[1][3]) == 1 and len(e[2]) == 2):
+        raise Rs2vError("%s: a field is not read by `match %s.get(..)`" % (what, mv))
+    key = _ts_lit(e[1][3][0], what)
+    some = [a for a in e[2] if a[0][0] == "ctor" and a[0][1] == ["Some"] and len(a[0][2]) == 1 and a[0][2][0]]
+    none = [a for a in e[2] if a[0] == ("ctor", ["None"], []) or a[0] == ("wild",)]
+    if len(some) != 1 or len(none) != 1 or not _ts_is_ret_none(none[0][1]):
+        raise Rs2vError("%s: the read of %r is not { Some(v) => .., None => return None }" % (what, key))
+    return key, some[0][0][2][0], some[0][1]
+
+
+def _ts_variant_match(e, var, what, key, allow_clone=False):
+    """match VAR { StateValue::V(x) => BODY, _ => return None } -> (V, x, BODY)"""
+    scr = e[1] if e[0] == "match" else None
+    if scr is not None and allow_clone:
+        scr = _ts_unwrap(scr)
+    if not (scr == ("path", [var]) and len(e[2]) == 2):
+        raise Rs2vError("%s: the value read from %r is not matched against its variant" % (what, key))
+    (p1, b1), (p2, b2) = e[2]
+    if not (p1[0] == "ctor" and len(p1[1]) == 2 and p1[1][0] == "StateValue" and len(p1[2]) == 1 and p1[2][0]
+            and p2 == ("wild",) and _ts_is_ret_none(b2)):
+        raise Rs2vError("%s: the variant match of %r is not { StateValue::V(x) => .., _ => return None }" % (what, key))
+    return p1[1][1], p1[2][0], b1
+
+
+def _ts_de_entries(params, body, what, serde_names):
+    """([(key, shape, local)], struct name, [(field, local)]) read by a deserialiser"""
+    if len(params) != 1:
+        raise Rs2vError("%s: not `fn(&mut HashMap)`" % what)
+    mv = params[0][0]
+    out = []
+    stmts = list(body[1])
+    i = 0
+    while i < len(stmts):
+        s = stmts[i]
+        if s[0] == "let" and _ts_unwrap(s[2]) == ("macro", "vec", []):
+            if i + 1 >= len(stmts) or stmts[i + 1][0] != "expr":
+                raise Rs2vError("%s: `let %s = vec![]` is not followed by the match that fills it" % (what, s[1]))
+            key, v, inner = _ts_get_match(stmts[i + 1][1], mv, what)
+            var, lv, blk = _ts_variant_match(inner, v, what, key)
+            ok = var == "List" and blk[0] == "block" and blk[2] is None and len(blk[1]) == 1 and blk[1][0][0] == "for" \
+                and _ts_unwrap(blk[1][0][2]) == ("path", [lv])
+            if ok:
+                f = blk[1][0]
+                fb = f[3]
+                item_match = fb[2] if (not fb[1] and fb[2] is not None) else (fb[1][0][1] if len(fb[1]) == 1 and fb[1][0][0] == "expr" and fb[2] is None else None)
+                ok = item_match is not None
+            if ok:
+                ivar, ix, ibody = _ts_variant_match(item_match, f[1], what, key)
+                ibody = ibody[2] if (ibody[0] == "block" and not ibody[1] and ibody[2] is not None) else ibody
+                ok = ibody[0] == "mcall" and ibody[1] == ("path", [s[1]]) and ibody[2] == "push" and len(ibody[3]) == 1 \
+                    and _ts_unwrap(ibody[3][0]) == ("path", [ix])
+            if not ok:
+                raise Rs2vError("%s: the list under %r is not read item by item into %s" % (what, key, s[1]))
+            out.append((key, ("list", ivar), s[1]))
+            i += 2
+            continue
+        if s[0] == "let":
+            key, v, inner = _ts_get_match(s[2], mv, what)
+            var, x, b = _ts_variant_match(inner, v, what, key, allow_clone=True)
+            if var == "SubState":
+                ok = b[0] == "match" and b[1][0] == "call" and b[1][1][0] == "path" and len(b[1][1][1]) == 1 \
+                    and len(b[1][2]) == 1 and _ts_unwrap(b[1][2][0]) == ("path", [x]) and len(b[2]) == 2
+                sname = [k for k, d in serde_names.items() if ok and d["de"] == b[1][1][1][0]]
+                if ok and sname:
+                    (p1, b1), (p2, b2) = b[2]
+                    ok = p1[0] == "ctor" and p1[1] == ["Some"] and len(p1[2]) == 1 and _ts_unwrap(b1) == ("path", [p1[2][0]]) \
+                        and (p2 == ("ctor", ["None"], []) or p2 == ("wild",)) and _ts_is_ret_none(b2)
+                if not (ok and sname):
+                    raise Rs2vError("%s: the sub-state under %r is not read by a checked deserialiser" % (what, key))
+                out.append((key, ("sub", sname[0]), s[1]))
+            else:
+                if var in ("List", "Set", "Any") or _ts_unwrap(b) != ("path", [x]):
+                    raise Rs2vError("%s: the value under %r is not handed on as it is" % (what, key))
+                out.append((key, ("scalar", var), s[1]))
+            i += 1
+            continue
+        raise Rs2vError("%s: statement not understood: %r" % (what, s[0]))
+    t = body[2]
+    if not (t is not None and t[0] == "call" and t[1] == ("path", ["Some"]) and len(t[2]) == 1 and t[2][0][0] == "struct"
+            and len(t[2][0][1]) == 1):
+        raise Rs2vError("%s: the result is not Some(Struct { .. })" % what)
+    fields = []
+    for fname, fe in t[2][0][2]:
+        fe = _ts_unwrap(fe)
+        if fe[0] != "path" or len(fe[1]) != 1:
+            raise Rs2vError("%s: field %s of the result is not a local read from the map" % (what, fname))
+        fields.append((fname, fe[1][0]))
+    return out, t[2][0][1][0], fields
+
+
+TS_SCALARS = {"UnsignedNumber": "usize", "Boolean": "bool", "String": "String"}
+
+
+def ts_check_serde(src, serde_names):
+    """serde_names: {struct: {"ser": fn, "de": fn}} -> ({struct: [(field, type text)]}, {struct: None | reason}): per struct,
+    whether its pair is mutually inverse field by field (see the block comment); a struct that nests a rejected one is
+    rejected too"""
+    res, why = {}, {}
+    for sname in serde_names:
+        try:
+            res[sname] = ts_read_struct(src, sname)
+            why[sname] = None
+        except Rs2vError as e:
+            res[sname], why[sname] = None, str(e)
+    nested = {}
+    for sname, d in serde_names.items():
+        if why[sname] is not None:
+            continue
+        try:
+            nested[sname] = _ts_check_pair(src, sname, d, res[sname], serde_names)
+        except Rs2vError as e:
+            why[sname] = str(e)
+    changed = True
+    while changed:
+        changed = False
+        for sname, subs in nested.items():
+            for s in subs:
+                if why[sname] is None and why.get(s) is not None:
+                    why[sname] = "it nests %s: %s" % (s, why[s])
+                    changed = True
+    return res, why
+
+
+def _ts_check_pair(src, sname, d, decl, serde_names):
+    if True:
+        what = "%s / %s" % (d["ser"], d["de"])
+        sp, _sr, sb = parse_fn_ts(src, d["ser"])
+        dp, dr, db = parse_fn_ts(src, d["de"])
+        if "".join((dr or "").split()) != "Option<%s>" % sname:
+            raise Rs2vError("%s: the deserialiser returns %s" % (what, dr))
+        if "&" + sname not in "".join(sp[0][1].split()) if sp else True:
+            raise Rs2vError("%s: the serialiser does not take &%s" % (what, sname))
+        ser = _ts_ser_entries(sp, sb, d["ser"], serde_names)
+        de, dstruct, dfields = _ts_de_entries(dp, db, d["de"], serde_names)
+        if dstruct != sname:
+            raise Rs2vError("%s: the deserialiser builds a %s" % (what, dstruct))
+        if sorted(f for f, _l in dfields) != sorted(f for f, _t in decl) or len(dfields) != len(decl):
+            raise Rs2vError("%s: the struct literal does not name exactly the declared fields of %s" % (what, sname))
+        if len({k for k, _s, _f in ser}) != len(ser) or len({k for k, _s, _l in de}) != len(de):
+            raise Rs2vError("%s: a key is written or read twice" % what)
+        if len({f for _k, _s, f in ser}) != len(ser) or len({l for _k, _s, l in de}) != len(de):
+            raise Rs2vError("%s: a field is written twice or a local is read twice" % what)
+        wr = {k: (s, f) for k, s, f in ser}
+        rd = {k: (s, l) for k, s, l in de}
+        if set(wr) != set(rd):
+            raise Rs2vError("%s: keys written %s, keys read %s" % (what, sorted(wr), sorted(rd)))
+        local_of = {f: l for f, l in dfields}
+        types = dict(decl)
+        for k in sorted(wr):
+            (ws, wf), (rs, rl) = wr[k], rd[k]
+            if ws != rs:
+                raise Rs2vError("%s: %r is written as %s and read as %s" % (what, k, ws, rs))
+            if local_of.get(wf) != rl:
+                raise Rs2vError("%s: %r is written from field %s but read into field %s" % (
+                    what, k, wf, ",".join(f for f, l in dfields if l == rl) or "?"))
+            want = TS_SCALARS.get(ws[1]) if ws[0] == "scalar" else \
+                ("Vec<%s>" % TS_SCALARS.get(ws[1]) if ws[0] == "list" else ws[1])
+            if want is None or "None" in want or types[wf] != want:
+                raise Rs2vError("%s: field %s : %s is stored as %s" % (what, wf, types[wf], ws))
+        if set(f for _k, _s, f in ser) != set(types):
+            raise Rs2vError("%s: not every field of %s is written" % (what, sname))
+        return [s[1] for _k, s, _f in ser if s[0] == "sub"]
+
+
+# ---- symbolic values, environment, state
+class TsV:
+    """a symbolic Rust value.  ty: "nat" / "bool" / "str" / "unit" / "err" / "cres" / ("list", T) / ("option", T) /
+    ("result", T) (Result<T, String>; the model keeps `option T`) / ("struct", S) (a configured Coq record) /
+    ("fields", S) (a struct that only exists at translation time: one TsV per field) / ("cmd", S) (a command struct) /
+    ("place", path) / ("map_fresh",) / ("ser", S) (a local HashMap holding the serialisation of the record `term`) /
+    ("sv", V) (StateValue::V(inner), inner in fields["0"]) / ("opaque", name).
+    known: ("lit", python value) / ("some", TsV) / ("none",) / ("ok", TsV) / ("err", TsV) / ("items", [TsV])"""
+    __slots__ = ("ty", "term", "known", "fields")
+
+    def __init__(self, ty, term=None, known=None, fields=None):
+        self.ty, self.term, self.known, self.fields = ty, term, known, fields
+
+    def __repr__(self):
+        return "TsV(%r, %r, %r)" % (self.ty, self.term, self.known)
+
+
+TS_UNIT = TsV("unit", "tt")
+
+
+class TsEnv:
+    """names -> cells -> values (shadowing-safe: a nested `let` of an outer name gets its own cell), plus the path facts
+    (what is known about a stable term on this path: ("nil",) / ("cons", head, tail))"""
+
+    def __init__(self, names=None, store=None, facts=None):
+        self.names, self.store, self.facts = names or {}, store or {}, facts or {}
+
+    def has(self, n):
+        return n in self.names
+
+    def get(self, n):
+        return self.store[self.names[n]]
+
+    def let(self, n, v):
+        c = len(self.store)
+        names, store = dict(self.names), dict(self.store)
+        names[n] = c
+        store[c] = v
+        return TsEnv(names, store, self.facts)
+
+    def set(self, n, v):
+        store = dict(self.store)
+        store[self.names[n]] = v
+        return TsEnv(self.names, store, self.facts)
+
+    def leave(self, outer):
+        """the environment after a block: the outer names, the cells as the block left them"""
+        return TsEnv(outer.names, self.store, self.facts)
+
+    def fact(self, term, f):
+        facts = dict(self.facts)
+        facts[term] = f
+        return TsEnv(self.names, self.store, facts)
+
+
+class TsSt:
+    """the symbolic runtime state: a base term of the state type and the components that were replaced since"""
+
+    def __init__(self, base, over=None):
+        self.base, self.over = base, over or {}
+
+    def comp(self, cfg, c):
+        return self.over[c] if c in self.over else "(%s %s)" % (cfg["state"]["proj"][c], self.base)
+
+    def with_comp(self, c, term):
+        o = dict(self.over)
+        o[c] = term
+        return TsSt(self.base, o)
+
+    def term(self, cfg):
+        if not self.over:
+            return self.base
+        return "(%s %s)" % (cfg["state"]["mk"], " ".join(self.comp(cfg, c) for c in cfg["state"]["comps"]))
+
+
+def ts_ident(s):
+    s = re.sub(r"\W", "_", s)
+    return s + "_" if s in ("end", "match", "with", "fun", "let", "in", "if", "then", "else", "return", "fix", "at", "as", "Type", "Set", "Prop") else s
+
+
+class FnTs:
+    """cfg keys (see lib/gen/flowif_gen.py for a complete instance):
+      state      {"mk": ctor, "comps": [component], "proj": {component: projection}, "root": rust name of the state parameter}
+      layout     {path: {"kind": "submap"} | {"kind": "dynmap", "comp": c, "value": ("serde", S) | ("variant", V, ty),
+                         "lookup": fmt(key, comp), "insert": fmt(key, value, comp)} | {"kind": "list", "comp": c, "elem": S}}
+      place_fns  {rust fn: ("root", prefix) | "sub" | "list"}
+      serde      {S: {"ser": fn, "de": fn}}; serde_ok {S: None | reason}  (result of ts_check_serde)
+      structs    {S: {"mk": ctor, "fields": [(rust field, projection, ty)]}}
+      statics    {NAME: text}; modules {rust module: {"src": text, "statics": {..}}}; src: the text of the file itself
+      fns        {rust fn: {"coq", "params": [(name, ty)], "ret": ("value", ty) | ("state",) | ("pair", ty), "fuel": bool}}
+      calls      {rust path tail: handler(fn, args, E, st, k, ctx) -> term}
+      cres       handler(fn, ctor name, [TsV]) -> term      (CommandResult::<ctor>(..))
+      panic      leaf(fn, st) -> term, or absent (an index that can fail is then refused)
+      fuel       {rust fn: fmt(state term)}"""
+
+    def __init__(self, cfg, name):
+        self.cfg, self.name, self.n = cfg, name, 0
+        self.sig = cfg["fns"][name]
+        self.loop_defs = []
+
+    # ---- small helpers
+    def fresh(self, base):
+        self.n += 1
+        return "%s_%d" % (ts_ident(base), self.n)
+
+    def err(self, msg):
+        raise Rs2vError("%s: %s" % (self.name, msg))
+
+    def plain(self, v, what):
+        if v.term is None:
+            self.err("%s has no value the model keeps" % what)
+        return v.term
+
+    def struct_cfg(self, ty):
+        return self.cfg["structs"][ty[1]]
+
+    def coq_of(self, v, ty=None):
+        """the Coq term of a value, as a value of model type ty"""
+        ty = ty or v.ty
+        if isinstance(ty, tuple) and ty[0] in ("option", "result"):
+            if v.known and v.known[0] in ("some", "ok"):
+                return "(Some %s)" % self.coq_of(v.known[1])
+            if v.known and v.known[0] in ("none", "err"):
+                return "None"
+        return self.plain(v, "a value of type %s" % (ty,))
+
+    def same_ty(self, a, b):
+        return a == b or a is None or b is None
+
+    # ---- leaves
+    def leaf(self, v, st, ctx, wrap=True):
+        kind = self.sig["ret"]
+        if kind[0] == "state":
+            if v.ty != "unit":
+                self.err("a value is returned from a function the model gives only a state")
+            t = st.term(self.cfg)
+        elif kind[0] == "value":
+            if "state" in [p[1] for p in self.sig["params"]] and (st.over or st.base != ctx["st0"]):
+                self.err("the function changes the state; the configured signature says it only reads it")
+            t = self.coq_of(self.conv(v, kind[1]), kind[1])
+        else:
+            t = "(%s, %s)" % (self.coq_of(self.conv(v, kind[1]), kind[1]), st.term(self.cfg))
+        if ctx.get("loop"):
+            return "LRet %s" % t
+        return "Some %s" % t if self.sig.get("fuel") else t
+
+    def conv(self, v, ty):
+        if v.ty == ty:
+            return v
+        if isinstance(ty, tuple) and isinstance(v.ty, tuple) and ty[0] == v.ty[0] and ty[0] in ("option", "result", "list") \
+                and (v.ty[1] is None or v.ty[1] == ty[1]):
+            return v
+        self.err("a %s where the configured signature has a %s" % (v.ty, ty))
+
+    # ---- expressions (continuation passing: k(value, E, st) -> term)
+    def exs(self, es, E, st, k, ctx):
+        def go(i, acc, E_, st_):
+            if i == len(es):
+                return k(acc, E_, st_)
+            return self.ex(es[i], E_, st_, lambda v, E2, st2: go(i + 1, acc + [v], E2, st2), ctx)
+        return go(0, [], E, st)
+
+    def lit_str(self, s):
+        return TsV("str", coq_str_lit(s), ("lit", s))
+
+    def ex(self, e, E, st, k, ctx):
+        t = e[0]
+        if t == "num":
+            return k(TsV("nat", "%d%%nat" % e[1], ("lit", e[1])), E, st)
+        if t == "str":
+            return k(self.lit_str(e[1]), E, st)
+        if t == "bool":
+            return k(TsV("bool", "true" if e[1] else "false", ("lit", e[1])), E, st)
+        if t in ("ref", "refmut"):
+            return self.ex(e[1], E, st, k, ctx)
+        if t == "tuple" and not e[1]:
+            return k(TS_UNIT, E, st)
+        if t == "path":
+            return k(self.path(e[1], E), E, st)
+        if t == "field":
+            return self.ex(e[1], E, st, lambda v, E2, st2: k(self.field(v, e[2]), E2, st2), ctx)
+        if t == "index":
+            return self.ex(e[1], E, st, lambda v, E2, st2: self.ex(
+                e[2], E2, st2, lambda i, E3, st3: self.index(v, i, E3, st3, k, ctx), ctx), ctx)
+        if t == "not":
+            return self.ex(e[1], E, st, lambda v, E2, st2: k(self.not_(v), E2, st2), ctx)
+        if t == "bin":
+            if e[1] in ("&&", "||"):
+                if self.effectful(e[3]):
+                    self.err("an operand of %s that has effects" % e[1])
+            return self.ex(e[2], E, st, lambda a, E2, st2: self.ex(
+                e[3], E2, st2, lambda b, E3, st3: k(self.bin(e[1], a, b), E3, st3), ctx), ctx)
+        if t == "macro":
+            if e[1] == "vec":
+                return self.exs(e[2], E, st, lambda vs, E2, st2: k(self.list_lit(vs), E2, st2), ctx)
+            self.err("macro %s!" % e[1])
+        if t == "struct":
+            return self.exs([fe for _f, fe in e[2]], E, st,
+                            lambda vs, E2, st2: k(self.struct_lit(e[1], [f for f, _ in e[2]], vs), E2, st2), ctx)
+        if t == "block":
+            return self.block(e, E, st, k, ctx)
+        if t == "if":
+            return self.if_(e, E, st, k, ctx)
+        if t == "match":
+            return self.ex(e[1], E, st, lambda v, E2, st2: self.match_(v, e[2], E2, st2, k, ctx), ctx)
+        if t == "iflet":
+            els = e[4] if e[4] is not None else ("block", [], None)
+            return self.ex(e[2], E, st, lambda v, E2, st2: self.match_(
+                v, [(e[1], e[3]), (("wild",), els)], E2, st2, k, ctx), ctx)
+        if t == "try":
+            def after(v, E2, st2):
+                if not (isinstance(v.ty, tuple) and v.ty[0] == "result"):
+                    self.err("`?` on a %s" % (v.ty,))
+                if v.known and v.known[0] == "ok":
+                    return k(v.known[1], E2, st2)
+                if v.known and v.known[0] == "err":
+                    return self.ret(TsV(("result", None), None, ("err", v.known[1])), E2, st2, ctx)
+                x = self.fresh("ok")
+                return "match %s with\n| Some %s =>\n%s\n| None =>\n%s\nend" % (
+                    v.term, x, k(self.of_ty(v.ty[1], x), E2, st2),
+                    self.ret(TsV(("result", None), None, ("err", TsV("err"))), E2, st2, ctx))
+            return self.ex(e[1], E, st, after, ctx)
+        if t == "call":
+            return self.call(e, E, st, k, ctx)
+        if t == "mcall":
+            return self.mcall(e, E, st, k, ctx)
+        self.err("expression %s" % t)
+
+    def effectful(self, e):
+        """conservative: anything but operators, paths, fields, literals and a few read-only methods"""
+        if not isinstance(e, tuple) or not e:
+            return False
+        if e[0] in ("num", "str", "bool", "path", "char"):
+            return False
+        if e[0] in ("field", "not", "ref", "refmut"):
+            return self.effectful(e[1])
+        if e[0] == "bin":
+            return self.effectful(e[2]) or self.effectful(e[3])
+        if e[0] == "mcall" and e[2] in ("len", "is_empty", "clone", "to_string", "as_str") and not e[3]:
+            return self.effectful(e[1])
+        return True
+
+    def of_ty(self, ty, term):
+        return TsV(ty, term)
+
+    def path(self, segs, E):
+        if len(segs) == 1:
+            n = segs[0]
+            if E.has(n):
+                return E.get(n)
+            if n == "None":
+                return TsV(("option", None), "None", ("none",))
+            if n in self.cfg.get("statics", {}):
+                return self.lit_str(self.cfg["statics"][n])
+            self.err("unknown name %s" % n)
+        if len(segs) == 2 and segs[0] in self.cfg.get("modules", {}):
+            st = self.cfg["modules"][segs[0]].get("statics", {})
+            if segs[1] in st:
+                return self.lit_str(st[segs[1]])
+        self.err("unknown path %s" % "::".join(segs))
+
+    def field(self, v, f):
+        if v.fields is not None and f in v.fields:
+            return v.fields[f]
+        if isinstance(v.ty, tuple) and v.ty[0] == "struct":
+            for rf, proj, ty in self.struct_cfg(v.ty)["fields"]:
+                if rf == f:
+                    return TsV(ty, "(%s %s)" % (proj, self.plain(v, "the struct")))
+        self.err("field %s of a %s" % (f, v.ty))
+
+    def not_(self, v):
+        if v.ty != "bool":
+            self.err("! on a %s" % (v.ty,))
+        if v.known:
+            return TsV("bool", "false" if v.known[1] else "true", ("lit", not v.known[1]))
+        return TsV("bool", "(negb %s)" % v.term)
+
+    def bin(self, op, a, b):
+        if op in ("&&", "||"):
+            if a.ty != "bool" or b.ty != "bool":
+                self.err("%s on %s, %s" % (op, a.ty, b.ty))
+            return TsV("bool", "(%s %s %s)" % (a.term, op, b.term))
+        if op in ("+",) and a.ty == "nat" and b.ty == "nat":
+            # usize addition: modelled on nat (no overflow: the operands are line numbers / indices of a Vec)
+            return TsV("nat", "(%s + %s)%%nat" % (a.term, b.term))
+        if op in ("==", "!=", "<", ">", "<=", ">="):
+            if a.ty != b.ty or a.ty not in ("nat", "str", "bool"):
+                self.err("%s on %s, %s" % (op, a.ty, b.ty))
+            if a.ty == "nat":
+                f = {"==": "(Nat.eqb %s %s)", "!=": "(negb (Nat.eqb %s %s))", "<": "(Nat.ltb %s %s)", "<=": "(Nat.leb %s %s)",
+                     ">": "(Nat.ltb %s %s)", ">=": "(Nat.leb %s %s)"}[op]
+                x, y = (b.term, a.term) if op in (">", ">=") else (a.term, b.term)
+                return TsV("bool", f % (x, y))
+            if a.ty == "str" and op in ("==", "!="):
+                t = "(str_eqb %s %s)" % (a.term, b.term)
+                return TsV("bool", t if op == "==" else "(negb %s)" % t)
+            if a.ty == "bool" and op in ("==", "!="):
+                t = "(Bool.eqb %s %s)" % (a.term, b.term)
+                return TsV("bool", t if op == "==" else "(negb %s)" % t)
+        self.err("operator %s on %s, %s" % (op, a.ty, b.ty))
+
+    def list_lit(self, vs):
+        ty = None
+        for v in vs:
+            if not self.same_ty(ty, v.ty):
+                self.err("a vec! of mixed types")
+            ty = v.ty
+        return TsV(("list", ty), "[" + "; ".join(self.plain(v, "a list element") for v in vs) + "]", ("items", vs))
+
+    def struct_lit(self, path, names, vs):
+        s = path[-1]
+        if s in self.cfg["structs"]:
+            sc = self.cfg["structs"][s]
+            if sorted(names) != sorted(f for f, _p, _t in sc["fields"]) or len(names) != len(sc["fields"]):
+                self.err("the literal of %s does not name exactly its fields" % s)
+            by = dict(zip(names, vs))
+            terms = []
+            for f, _p, ty in sc["fields"]:
+                terms.append(self.coq_of(self.conv(by[f], ty), ty))
+            return TsV(("struct", s), "(%s %s)" % (sc["mk"], " ".join(terms)), None, dict(by))
+        if self.is_cmd_struct(s):
+            if names != ["package"] or vs[0].ty != "str":
+                self.err("command struct %s built from other fields than package" % s)
+            return TsV(("cmd", s, path[0] if len(path) > 1 else None), None, None, {"package": vs[0]})
+        self.err("struct literal %s" % s)
+
+    def is_cmd_struct(self, s):
+        return s in self.cfg.get("cmd_structs", {})
+
+    def index(self, v, i, E, st, k, ctx):
+        if not (isinstance(v.ty, tuple) and v.ty[0] == "list") or i.ty != "nat":
+            self.err("index on %s by %s" % (v.ty, i.ty))
+        f = E.facts.get(v.term)
+        if f and f[0] == "cons" and i.known and i.known[1] == 0:
+            return k(TsV(v.ty[1], f[1]), E, st)
+        if "panic" not in self.cfg or self.sig.get("no_panic"):
+            self.err("an index that can be out of range in a function without a panic outcome")
+        x = self.fresh(ctx.get("bind_hint") or "item")
+        return "match nth_error %s %s with\n| None => %s\n| Some %s =>\n%s\nend" % (
+            v.term, i.term, self.panic_leaf(st, ctx), x, k(TsV(v.ty[1], x), E, st))
+
+    def panic_leaf(self, st, ctx):
+        t = self.cfg["panic"](self, st)
+        if ctx.get("loop"):
+            return "LRet %s" % t
+        return "Some %s" % t if self.sig.get("fuel") else t
+
+    # ---- blocks and statements
+    def block(self, b, E, st, k, ctx):
+        outer = E
+
+        def done(v, E2, st2):
+            return k(v, E2.leave(outer), st2)
+        return self.stmts(b[1], b[2], E, st, done, ctx)
+
+    def stmts(self, items, tail, E, st, k, ctx):
+        if not items:
+            if tail is None:
+                return k(TS_UNIT, E, st)
+            return self.ex(tail, E, st, k, ctx)
+        s, rest = items[0], items[1:]
+
+        def go(E2, st2):
+            return self.stmts(rest, tail, E2, st2, k, ctx)
+        if s[0] == "let":
+            ctx2 = dict(ctx)
+            ctx2["bind_hint"] = s[1]
+            return self.ex(s[2], E, st, lambda v, E2, st2: go(E2.let(s[1], v), st2), ctx2)
+        if s[0] == "expr":
+            return self.ex(s[1], E, st, lambda _v, E2, st2: go(E2, st2), ctx)
+        if s[0] == "return":
+            if s[1] is None:
+                return self.ret(TS_UNIT, E, st, ctx)
+            return self.ex(s[1], E, st, lambda v, E2, st2: self.ret(v, E2, st2, ctx), ctx)
+        if s[0] == "loop":
+            if rest or tail is not None:
+                self.err("statements after `loop { }`")
+            return self.loop(s[1], E, st, ctx)
+        self.err("statement %s" % s[0])
+
+    def ret(self, v, E, st, ctx):
+        if ctx.get("inline") is not None:
+            return ctx["inline"](v, E, st)
+        return self.leaf(v, st, ctx)
+
+    # ---- control flow
+    def if_(self, e, E, st, k, ctx):
+        c, then, els = e[1], e[2], e[3] if e[3] is not None else ("block", [], None)
+        neg = False
+        c0 = c
+        while c0[0] == "not":
+            neg, c0 = not neg, c0[1]
+        if c0[0] == "mcall" and c0[2] == "is_empty" and not c0[3] and not self.effectful(c0[1]):
+            def on_list(v, E2, st2):
+                if not (isinstance(v.ty, tuple) and v.ty[0] == "list"):
+                    return self.cond(c, then, els, E2, st2, k, ctx)
+                a, b = (els, then) if neg else (then, els)
+                if v.known and v.known[0] == "items":
+                    return self.ex(a if not v.known[1] else b, E2, st2, k, ctx)
+                f = E2.facts.get(v.term)
+                if f:
+                    return self.ex(a if f[0] == "nil" else b, E2, st2, k, ctx)
+                h, r = self.fresh("x"), self.fresh("xs")
+                return "match %s with\n| [] =>\n%s\n| %s :: %s =>\n%s\nend" % (
+                    v.term, self.ex(a, E2.fact(v.term, ("nil",)), st2, lambda x, E3, st3: k(x, TsEnv(E3.names, E3.store, E2.facts), st3), ctx),
+                    h, r, self.ex(b, E2.fact(v.term, ("cons", h, r)), st2, lambda x, E3, st3: k(x, TsEnv(E3.names, E3.store, E2.facts), st3), ctx))
+            return self.ex(c0[1], E, st, on_list, ctx)
+        return self.cond(c, then, els, E, st, k, ctx)
+
+    def cond(self, c, then, els, E, st, k, ctx):
+        def on(v, E2, st2):
+            if v.ty != "bool":
+                self.err("if on a %s" % (v.ty,))
+            if v.known:
+                return self.ex(then if v.known[1] else els, E2, st2, k, ctx)
+            return "if %s then\n%s\nelse\n%s" % (v.term, self.ex(then, E2, st2, k, ctx), self.ex(els, E2, st2, k, ctx))
+        return self.ex(c, E, st, on, ctx)
+
+    def bind_pat(self, pat, v, E):
+        """bind the (single) variable of a one-argument constructor pattern"""
+        if pat[2] and pat[2][0]:
+            return E.let(pat[2][0], v)
+        return E
+
+    def match_(self, v, arms, E, st, k, ctx):
+        def arm(body, E2):
+            outer = E
+
+            def done(x, E3, st3):
+                return k(x, E3.leave(outer), st3)
+            return self.ex(body, E2, st, done, ctx)
+
+        def find(ctor):
+            for pat, body in arms:
+                if pat == ("wild",):
+                    return None, body
+                if pat[0] == "ctor" and pat[1][-1] == ctor:
+                    return pat, body
+            self.err("no arm for %s" % ctor)
+        if len(arms) == 1 and arms[0][0] == ("wild",):
+            return arm(arms[0][1], E)
+        ty = v.ty
+        if isinstance(ty, tuple) and ty[0] == "sv":
+            # typed-view invariant: the variant is the one the layout keeps here
+            pat, body = find(ty[1])
+            return arm(body, self.bind_pat(pat, v.fields["0"], E) if pat else E)
+        if isinstance(ty, tuple) and ty[0] in ("option", "result"):
+            yes, no = ("Some", "None") if ty[0] == "option" else ("Ok", "Err")
+            for pat, _b in arms:
+                if pat != ("wild",) and not (pat[0] == "ctor" and pat[1] in ([yes], [no])):
+                    self.err("pattern %r on a %s" % (pat, ty[0]))
+            if v.known and v.known[0] in ("some", "ok"):
+                pat, body = find(yes)
+                return arm(body, self.bind_pat(pat, v.known[1], E) if pat else E)
+            if v.known and v.known[0] in ("none", "err"):
+                pat, body = find(no)
+                if pat and ty[0] == "result":
+                    return arm(body, self.bind_pat(pat, v.known[1], E))
+                return arm(body, E)
+            py, by = find(yes)
+            pn, bn = find(no)
+            hint = (py[2][0] if py and py[2] and py[2][0] else None) or "v"
+            x = self.fresh(hint)
+            inner = self.of_ty(ty[1], x)
+            Ey = self.bind_pat(py, inner, E) if py else E
+            En = self.bind_pat(pn, TsV("err"), E) if (pn and ty[0] == "result") else E
+            return "match %s with\n| Some %s =>\n%s\n| None =>\n%s\nend" % (self.plain(v, "the scrutinee"), x, arm(by, Ey), arm(bn, En))
+        self.err("match on a %s" % (ty,))
+
+    # ---- places (references into the typed view of the state)
+    def key_lit(self, v, what):
+        if v.ty != "str" or not v.known or v.known[0] != "lit":
+            self.err("%s: the key is not a literal known at translation time" % what)
+        return v.known[1]
+
+    def place_call(self, name, kind, args, E, st, k, ctx):
+        def go(vs, E2, st2):
+            if kind[0] == "root" if isinstance(kind, tuple) else False:
+                if len(vs) != 2 or vs[0].ty != ("place", ()):
+                    self.err("%s is not called on the whole state" % name)
+                path = tuple(kind[1]) + (self.key_lit(vs[1], name),)
+                if path not in self.cfg["layout"]:
+                    self.err("%s: the typed view has no sub-state %s" % (name, "/".join(path)))
+                return k(TsV(("place", path)), E2, st2)
+            if len(vs) != 2 or not (isinstance(vs[1].ty, tuple) and vs[1].ty[0] == "place"):
+                self.err("%s(key, place) expected" % name)
+            path = vs[1].ty[1]
+            if path == () or path not in self.cfg["layout"]:
+                self.err("%s on something that is not a sub-state of the typed view" % name)
+            nd = self.cfg["layout"][path]
+            if nd["kind"] == "submap":
+                child = path + (self.key_lit(vs[0], name),)
+                cn = self.cfg["layout"].get(child)
+                if cn is None:
+                    self.err("%s: the typed view has no %s" % (name, "/".join(child)))
+                if (kind == "list") != (cn["kind"] == "list"):
+                    self.err("%s: %s is a %s in the typed view" % (name, "/".join(child), cn["kind"]))
+                return k(TsV(("place", child)), E2, st2)
+            if nd["kind"] == "dynmap" and kind == "sub" and nd["value"][0] == "serde":
+                if vs[0].ty != "str":
+                    self.err("%s: the key is not a string" % name)
+                return k(TsV(("slot", path), None, None, {"key": vs[0]}), E2, st2)
+            self.err("%s on a %s of the typed view" % (name, nd["kind"]))
+        return self.exs(args, E, st, go, ctx)
+
+    def need_serde(self, s):
+        why = self.cfg.get("serde_ok", {}).get(s, "not checked")
+        if why is not None:
+            self.err("serialise / deserialise of %s are not understood as mutually inverse (%s)" % (s, why))
+
+    def serde_call(self, s, which, args, E, st, k, ctx, arg_exprs):
+        self.need_serde(s)
+
+        def go(vs, E2, st2):
+            if which == "de":
+                if len(vs) != 1:
+                    self.err("deserialiser of %s: arguments" % s)
+                m = vs[0]
+                if m.ty == ("ser", s):
+                    return k(TsV(("option", ("struct", s)), None, ("some", TsV(("struct", s), m.term))), E2, st2)
+                if isinstance(m.ty, tuple) and m.ty[0] == "slot":
+                    nd = self.cfg["layout"][m.ty[1]]
+                    if nd["value"] != ("serde", s):
+                        self.err("deserialiser of %s on a slot that holds %s" % (s, nd["value"]))
+                    t = nd["lookup"] % (self.plain(m.fields["key"], "the key"), st2.comp(self.cfg, nd["comp"]))
+                    return k(TsV(("option", ("struct", s)), t), E2, st2)
+                self.err("deserialiser of %s on a %s" % (s, m.ty))
+            if len(vs) != 2 or vs[0].ty != ("struct", s):
+                self.err("serialiser of %s: arguments" % s)
+            m = vs[1]
+            if m.ty == ("map_fresh",):
+                tgt = _ts_unwrap(arg_exprs[1])
+                if tgt[0] != "path" or len(tgt[1]) != 1 or not E2.has(tgt[1][0]):
+                    self.err("serialiser of %s into something that is not a local map" % s)
+                return k(TS_UNIT, E2.set(tgt[1][0], TsV(("ser", s), self.plain(vs[0], "the record"))), st2)
+            if isinstance(m.ty, tuple) and m.ty[0] == "slot":
+                nd = self.cfg["layout"][m.ty[1]]
+                if nd["value"] != ("serde", s):
+                    self.err("serialiser of %s on a slot that holds %s" % (s, nd["value"]))
+                c = nd["comp"]
+                t = nd["insert"] % (self.plain(m.fields["key"], "the key"), self.plain(vs[0], "the record"), st2.comp(self.cfg, c))
+                return k(TS_UNIT, E2, st2.with_comp(c, t))
+            self.err("serialiser of %s into a %s" % (s, m.ty))
+        return self.exs(args, E, st, go, ctx)
+
+    # ---- calls
+    def call(self, e, E, st, k, ctx):
+        f, args = e[1], e[2]
+        if f[0] != "path":
+            self.err("call of a computed function")
+        segs = f[1]
+        last = segs[-1]
+        full = "::".join(segs)
+        if segs in (["Some"], ["Ok"], ["Err"]) and len(args) == 1:
+            tag, ty = {"Some": ("some", "option"), "Ok": ("ok", "result"), "Err": ("err", "result")}[last]
+
+            def wrap(v, E2, st2):
+                if tag == "err":
+                    return k(TsV(("result", None), None, ("err", v if v.ty == "err" else TsV("err", None, ("text", v)))), E2, st2)
+                return k(TsV((ty, v.ty), None if v.term is None else "(Some %s)" % v.term, (tag, v)), E2, st2)
+            return self.ex(args[0], E, st, wrap, ctx)
+        if segs == ["HashMap", "new"] and not args:
+            return k(TsV(("map_fresh",)), E, st)
+        if len(segs) == 2 and segs[0] == "StateValue" and len(args) == 1:
+            return self.ex(args[0], E, st, lambda v, E2, st2: k(TsV(("sv", last), None, None, {"0": v}), E2, st2), ctx)
+        if len(segs) == 2 and segs[0] == "CommandResult":
+            return self.exs(args, E, st, lambda vs, E2, st2: k(TsV("cres", self.cfg["cres"](self, last, vs)), E2, st2), ctx)
+        if len(segs) == 2 and segs[0] == "GoToValue" and len(args) == 1:
+            return self.ex(args[0], E, st, lambda v, E2, st2: k(TsV(("goto", last), v.term, None, {"0": v}), E2, st2), ctx)
+        if last in self.cfg.get("place_fns", {}) and len(segs) == 1:
+            return self.place_call(last, self.cfg["place_fns"][last], args, E, st, k, ctx)
+        for s, d in self.cfg.get("serde", {}).items():
+            if len(segs) == 1 and last in (d["ser"], d["de"]):
+                return self.serde_call(s, "ser" if last == d["ser"] else "de", args, E, st, k, ctx, args)
+        if full in self.cfg.get("calls", {}) or last in self.cfg.get("calls", {}):
+            h = self.cfg["calls"].get(full) or self.cfg["calls"][last]
+            return self.exs(args, E, st, lambda vs, E2, st2: h(self, vs, E2, st2, k, ctx), ctx)
+        if last in self.cfg["fns"] and (len(segs) == 1 or (len(segs) == 2 and self.cfg["fns"][last].get("module") == segs[0])):
+            return self.fn_call(last, args, E, st, k, ctx)
+        if last == "new" and len(segs) >= 2 and self.is_cmd_struct(segs[-2]):
+            return self.exs(args, E, st, lambda vs, E2, st2: self.cmd_new(segs[-2], vs, E2, st2, k, ctx), ctx)
+        self.err("call of %s" % full)
+
+    def fn_call(self, name, args, E, st, k, ctx):
+        sig = self.cfg["fns"][name]
+        if not sig.get("understood", True):
+            self.err("the callee %s is not understood" % name)
+        if len(args) != len(sig["params"]):
+            self.err("%s: %d arguments" % (name, len(args)))
+
+        def go(vs, E2, st2):
+            terms, has_state = [], False
+            for v, (pn, pty) in zip(vs, sig["params"]):
+                if pty == "state":
+                    if v.ty != ("place", ()):
+                        self.err("%s: the state argument is not the whole state" % name)
+                    has_state = True
+                    continue
+                terms.append(self.coq_of(self.conv(v, pty), pty))
+            for extra in sig.get("extra", []):
+                terms.insert(0, self.plain(E2.get(extra) if E2.has(extra) else self.err("%s needs %s" % (name, extra)), extra))
+            if has_state:
+                terms.append(st2.term(self.cfg))
+            callt = "(%s %s)" % (sig["coq"], " ".join(terms)) if terms else sig["coq"]
+            kind = sig["ret"]
+
+            def split(ty, st3, pat_of, fuel):
+                """the arms for a returned value of type ty (an option / result is split into its two outcomes)"""
+                if isinstance(ty, tuple) and ty[0] in ("option", "result"):
+                    x = self.fresh(ctx.get("bind_hint") or "v")
+                    inner = self.of_ty(ty[1], x)
+                    yes = TsV(ty, "(Some %s)" % x, ("some" if ty[0] == "option" else "ok", inner))
+                    no = TsV(ty, "None", ("none",) if ty[0] == "option" else ("err", TsV("err", None, ("from", name))))
+                    return [(pat_of("Some %s" % x), yes), (pat_of("None"), no)]
+                x = self.fresh(ctx.get("bind_hint") or "v")
+                return [(pat_of(x), self.of_ty(ty, x))]
+            fuel = sig.get("fuel")
+            if fuel and not self.sig.get("fuel"):
+                self.err("%s can run out of fuel; the configured signature of the caller has no such outcome" % name)
+            if kind[0] == "state":
+                if fuel:
+                    s2 = self.fresh("st")
+                    out = "match %s with\n| None => %s\n| Some %s =>\n%s\nend" % (
+                        callt, "LRet None" if ctx.get("loop") else "None", s2, k(TS_UNIT, E2, TsSt(s2)))
+                    return out
+                return k(TS_UNIT, E2, TsSt(callt))
+            if kind[0] == "value":
+                if fuel:
+                    self.err("a fuelled callee that returns a bare value")
+                if isinstance(kind[1], tuple) and kind[1][0] in ("option", "result"):
+                    arms = split(kind[1], st2, lambda p: p, False)
+                    return "match %s with\n%s\nend" % (callt, "\n".join("| %s =>\n%s" % (p, k(v, E2, st2)) for p, v in arms))
+                return k(self.of_ty(kind[1], callt), E2, st2)
+            s2 = self.fresh("st")
+            wrap = (lambda p: "Some (%s, %s)" % (p, s2)) if fuel else (lambda p: "(%s, %s)" % (p, s2))
+            arms = split(kind[1], None, wrap, fuel)
+            body = "\n".join("| %s =>\n%s" % (p, k(v, E2, TsSt(s2))) for p, v in arms)
+            if fuel:
+                body = "| None => %s\n%s" % ("None", body)
+            return "match %s with\n%s\nend" % (callt, body)
+        return self.exs(args, E, st, go, ctx)
+
+    # ---- command structs: name() / aliases() / new() executed from their own source
+    def cmd_src(self, s):
+        mod = self.cfg["cmd_structs"][s]
+        return self.cfg["src"] if mod is None else self.cfg["modules"][mod]["src"]
+
+    def cmd_new(self, s, vs, E, st, k, ctx):
+        r = parse_impl_fn_ts(self.cmd_src(s), s, "new")
+        if r is None:
+            self.err("%s::new not found" % s)
+        _recv, params, _rt, body = r
+        if len(params) != len(vs):
+            self.err("%s::new: arguments" % s)
+        E0 = TsEnv()
+        for (pn, _t), v in zip(params, vs):
+            E0 = E0.let(pn, v)
+        return self.inline(body, E0, E, st, k, ctx, "%s::new" % s)
+
+    def inline(self, body, E0, E, st, k, ctx, what):
+        """run a small pure helper at the call site: its value goes to k, the caller's environment is untouched"""
+        ctx2 = {"inline": lambda v, _E, st2: k(v, E, st2), "st0": ctx.get("st0")}
+        if ctx.get("loop"):
+            ctx2["loop"] = True
+        return self.stmts(body[1], body[2], E0, st, lambda v, _E, st2: k(v, E, st2), ctx2)
+
+    def cmd_method(self, v, m, E, st, k, ctx):
+        s = v.ty[1]
+        r = parse_trait_fn_ts(self.cmd_src(s), "Command", s, m)
+        if r is None:
+            if m == "aliases":
+                return k(TsV(("list", "str"), "[]", ("items", [])), E, st)      # the trait's default: vec![]
+            self.err("%s::%s not found" % (s, m))
+        recv, params, _rt, body = r
+        if params or recv != "ref":
+            self.err("%s::%s takes parameters" % (s, m))
+        return self.inline(body, TsEnv().let("self", v), E, st, k, ctx, "%s::%s" % (s, m))
+
+    # ---- method calls
+    def local_of(self, e, E):
+        e = _ts_unwrap(e) if e[0] in ("ref", "refmut") else e
+        if e[0] == "path" and len(e[1]) == 1 and E.has(e[1][0]):
+            return e[1][0]
+        return None
+
+    def mcall(self, e, E, st, k, ctx):
+        recv, m, args = e[1], e[2], e[3]
+
+        def on(v, E2, st2):
+            ty = v.ty
+            if m in ("clone", "to_owned", "as_str") and not args and (
+                    ty in ("str", "nat", "bool") or (isinstance(ty, tuple) and ty[0] in ("struct", "list", "option", "fields"))):
+                return k(v, E2, st2)
+            if m == "to_string" and not args and ty in ("str", "err"):
+                return k(v, E2, st2)
+            if m == "to_string" and not args and ty == "nat":
+                return k(TsV("str", self.cfg["num_to_string"] % v.term), E2, st2)
+            if isinstance(ty, tuple) and ty[0] == "cmd" and m in ("name", "aliases") and not args:
+                return self.cmd_method(v, m, E2, st2, k, ctx)
+            if isinstance(ty, tuple) and ty[0] == "list":
+                if m == "len" and not args:
+                    return k(TsV("nat", "(length %s)" % v.term), E2, st2)
+                if m == "is_empty" and not args:
+                    f = E2.facts.get(v.term)
+                    if f:
+                        return k(TsV("bool", "true" if f[0] == "nil" else "false", ("lit", f[0] == "nil")), E2, st2)
+                    return k(TsV("bool", "(match %s with [] => true | _ :: _ => false end)" % v.term), E2, st2)
+                if m in ("push", "append") and len(args) == 1:
+                    n = self.local_of(recv, E2)
+                    if n is None:
+                        self.err("%s on a list that is not a local" % m)
+
+                    def upd(a, E3, st3):
+                        cur = E3.get(n)
+                        if m == "push":
+                            if not self.same_ty(cur.ty[1], a.ty):
+                                self.err("push of a %s onto a list of %s" % (a.ty, cur.ty[1]))
+                            ety, t = cur.ty[1] or a.ty, "(%s ++ [%s])" % (cur.term, self.plain(a, "the pushed value"))
+                            if cur.known and cur.known[0] == "items" and not cur.known[1]:
+                                t = "[%s]" % a.term
+                        else:
+                            if not (isinstance(a.ty, tuple) and a.ty[0] == "list" and self.same_ty(cur.ty[1], a.ty[1])):
+                                self.err("append of a %s" % (a.ty,))
+                            if self.local_of(args[0], E3) is not None:
+                                self.err("append from a local (it would have to be emptied)")
+                            ety, t = cur.ty[1] or a.ty[1], "(%s ++ %s)" % (cur.term, a.term)
+                            if cur.known and cur.known[0] == "items" and not cur.known[1]:
+                                t = a.term
+                        return k(TS_UNIT, E3.set(n, TsV(("list", ety), t)), st3)
+                    return self.ex(args[0], E2, st2, upd, ctx)
+            if ty == "str" and m == "push_str" and len(args) == 1:
+                n = self.local_of(recv, E2)
+                if n is None:
+                    self.err("push_str on a string that is not a local")
+                return self.ex(args[0], E2, st2, lambda a, E3, st3: k(TS_UNIT, E3.set(n, TsV(
+                    "str", "(%s ++ %s)" % (E3.get(n).term, self.plain(self.conv(a, "str"), "the pushed text")))), st3), ctx)
+            if isinstance(ty, tuple) and ty[0] == "place" and ty[1] in self.cfg["layout"]:
+                nd = self.cfg["layout"][ty[1]]
+                if nd["kind"] == "list" and m == "pop" and not args:
+                    s = nd["elem"]
+                    self.need_serde(s)
+                    c = nd["comp"]
+                    h, r = self.fresh(ctx.get("bind_hint") or "top"), self.fresh("rest")
+                    hint = ctx.get("pop_hint")
+                    elem = TsV(("sv", "SubState"), None, None, {"0": TsV(("ser", s), h)})
+                    return "match %s with\n| [] =>\n%s\n| %s :: %s =>\n%s\nend" % (
+                        st2.comp(self.cfg, c), k(TsV(("option", ("sv", "SubState")), None, ("none",)), E2, st2),
+                        h, r, k(TsV(("option", ("sv", "SubState")), None, ("some", elem)), E2, st2.with_comp(c, r)))
+                if nd["kind"] == "list" and m == "push" and len(args) == 1:
+                    s = nd["elem"]
+                    self.need_serde(s)
+
+                    def push(a, E3, st3):
+                        if a.ty != ("sv", "SubState") or a.fields["0"].ty != ("ser", s):
+                            self.err("push of something that is not StateValue::SubState(<serialised %s>)" % s)
+                        c = nd["comp"]
+                        return k(TS_UNIT, E3, st3.with_comp(c, "(%s :: %s)" % (a.fields["0"].term, st3.comp(self.cfg, c))))
+                    return self.ex(args[0], E2, st2, push, ctx)
+                if nd["kind"] == "dynmap" and nd["value"][0] == "variant" and m == "insert" and len(args) == 2:
+                    def ins(vs, E3, st3):
+                        key, val = vs
+                        if key.ty != "str" or val.ty != ("sv", nd["value"][1]) or val.fields["0"].ty != nd["value"][2]:
+                            self.err("insert of %s under a %s key; the typed view keeps StateValue::%s here" % (val.ty, key.ty, nd["value"][1]))
+                        c = nd["comp"]
+                        return k(TS_UNIT, E3, st3.with_comp(c, nd["insert"] % (key.term, val.fields["0"].term, st3.comp(self.cfg, c))))
+                    return self.exs(args, E2, st2, ins, ctx)
+            self.err("method %s on a %s" % (m, ty))
+        ctx2 = ctx
+        return self.ex(recv, E, st, on, ctx2)
+
+    # ---- `loop { .. }` as the last statement
+    def loop(self, body, E, st, ctx):
+        if ctx.get("loop") or ctx.get("inline") is not None:
+            self.err("nested loop")
+        if st.over:
+            self.err("the state is changed before the loop")
+        sig = self.sig
+        extras = [n for n in sig.get("loop_locals", [])]
+        for n in extras:
+            if not E.has(n):
+                self.err("the loop body is configured to take the local %s, which does not exist" % n)
+        # the body sees the parameters and the configured locals under their own names; any other local of the
+        # enclosing function is not available to it
+        Eb = TsEnv()
+        binders = []
+        for pn, pty in sig["params"]:
+            if pty == "state":
+                Eb = Eb.let(pn, TsV(("place", ())))
+            else:
+                Eb = Eb.let(pn, self.of_ty(pty, ts_ident(pn)))
+                binders.append("(%s : %s)" % (ts_ident(pn), self.cfg["coq_type"](pty)))
+        for n in extras:
+            v = E.get(n)
+            Eb = Eb.let(n, self.of_ty(v.ty, ts_ident(n)))
+            binders.append("(%s : %s)" % (ts_ident(n), self.cfg["coq_type"](v.ty)))
+        for n in E.names:
+            if not Eb.has(n):
+                Eb = Eb.let(n, TsV(("opaque", "a local of the enclosing function the loop body is not configured to take")))
+        ctx2 = {"loop": True, "st0": "st"}
+        bt = self.stmts(body[1], body[2], Eb, TsSt("st"), lambda _v, _E, st2: "LCont %s" % st2.term(self.cfg), ctx2)
+        res_ty = self.ret_type_text(inner=True)
+        self.loop_defs.append("Definition %s_body %s%s (st : %s) : lstep (%s) (%s) :=\n%s." % (
+            sig["coq"], self.cfg["state"].get("implicit", ""), " ".join(binders), self.cfg["state"]["type"],
+            self.cfg["state"]["type"], res_ty, bt))
+        actual = [ts_ident(pn) for pn, pty in sig["params"] if pty != "state"] + [self.plain(E.get(n), n) for n in extras]
+        fuel = self.cfg["fuel"][self.name] % st.term(self.cfg)
+        return "loop_r (%s_body %s) %s %s" % (sig["coq"], " ".join(actual), fuel, st.term(self.cfg))
+
+    def ret_type_text(self, inner=False):
+        kind = self.sig["ret"]
+        ct = self.cfg["coq_type"]
+        if kind[0] == "state":
+            t = self.cfg["state"]["type"]
+        elif kind[0] == "value":
+            t = ct(kind[1])
+        else:
+            t = "%s * %s" % (ct(kind[1]), self.cfg["state"]["type"])
+        if self.sig.get("fuel") and not inner:
+            t = "option (%s)" % t
+        return t
+
+    # ---- the function
+    def translate(self, params, body, recv_fields=None):
+        """-> [definition text]; params: [(name, type text)] of the source, checked against the configured signature"""
+        sig = self.sig
+        if not sig.get("context") and [p for p, _t in params] != [p for p, _t in sig["params"]]:
+            self.err("parameters %s; the configured signature has %s" % ([p for p, _ in params], [p for p, _ in sig["params"]]))
+        E = TsEnv()
+        binders = []
+        for b in sig.get("pre_binders", []):
+            binders.append(b)
+        if sig.get("context"):
+            E = sig["context"](self, params, E, binders)
+        else:
+            for (pn, _tt), (_pn, pty) in zip(params, sig["params"]):
+                if pty == "state":
+                    E = E.let(pn, TsV(("place", ())))
+                else:
+                    E = E.let(pn, self.of_ty(pty, ts_ident(pn)))
+                    binders.append("(%s : %s)" % (ts_ident(pn), self.cfg["coq_type"](pty)))
+        has_state = sig.get("context") or any(pty == "state" for _p, pty in sig["params"])
+        if has_state:
+            binders.append("(st : %s)" % self.cfg["state"]["type"])
+        ctx = {"st0": "st"}
+        term = self.stmts(body[1], body[2], E, TsSt("st"), lambda v, _E, st2: self.leaf(v, st2, ctx), ctx)
+        head = "Definition %s %s%s : %s :=\n%s." % (
+            sig["coq"], self.cfg["state"].get("implicit", "") if has_state else "", " ".join(binders), self.ret_type_text(), term)
+        return self.loop_defs + [head]
